@@ -1,193 +1,58 @@
-import PV.Prog.Lemmas
-import PV.Prog.Render
-import PV.C11.Thm
+import PV.Prog.RtSimple
+import PV.Prog.RtParams
+import PV.Prog.RtBal
+import PV.Prog.RtPat
 /-
-  PV.Prog.RenderLemmas — the round trip through the statement printer, statement by statement
-  (expression positions: `PV.C11.parse_unparse_partial_at`).
+  PV.Prog.RenderLemmas — the round trip through the statement printer: blocks, suites, `else` / `finally` clauses, the
+  compound statements, and the mutual induction over statements / blocks / handlers / cases (`rtStmt`, `rtBlock`,
+  `rtHandlers`, `rtCases`), programs (`progRT`).
+  Expression positions: PV.Prog.RtBase (on `PV.C11.goodX`); simple statements: RtSimple; parameter lists: RtParams;
+  patterns: RtPat; bracket balance of renderings (the scanner of `with ( … ) :`): RtBal.
 -/
 set_option linter.unusedSimpArgs false
 namespace PV.Prog
 open PV.Expr PV.C11
 
-/-- `p` answers `some r` for every sufficiently large fuel -/
-def EvT {β : Type} (p : Nat → Option β) (r : β) : Prop := ∃ n, ∀ f, n ≤ f → p f = some r
+/-! ## what may follow a statement -/
 
-theorem renderExpr_head (e : Expr) (h : inFrag e = true) : ∃ t r, renderExpr e = t :: r ∧ goodHead 1 t = true :=
-  firstTok _ e h 1
-
-theorem stop1_newline (rest : List Tok) : Stop 1 (tNewline :: rest) := by
-  intro t r h; cases h; rfl
-
-/-- a fragment expression, followed by NEWLINE or `:`, is read back by `Test` -/
-theorem evT_parseTest (e : Expr) (h : inFrag e = true) (rest : List Tok) (hs : Stop 1 rest) :
-    EvT (fun f => parseTest f (renderExpr e ++ rest)) (e, rest) := by
-  obtain ⟨n, hn⟩ := parse_unparse_partial_at (fun _ => true) e h 1 rest (Nat.le_refl 1) (by decide) hs
-  exact ⟨n, fun f hf => by have := hn f hf; rw [parseAt_1] at this; exact this⟩
-
-theorem goodHead_not_star {t : Tok} (h : goodHead 1 t = true) : t ≠ .op .star := by
-  intro e; subst e; simp [goodHead] at h
-
-theorem goodHead_not_stmtHead {t : Tok} (h : goodHead 1 t = true) : stmtHead t = false := by
-  unfold goodHead at h
-  split at h <;> simp_all [stmtHead]
-
-theorem parseTestOrStar_of_head {t : Tok} (ht : t ≠ .op .star) (r : List Tok) (f : Nat) :
-    parseTestOrStar (f + 1) (t :: r) = parseTest f (t :: r) := by
-  rw [parseTestOrStar.eq_3]
-  intro r' h
-  cases h
-  exact ht rfl
-
-/-- … and by the statement-level `TestList` as ONE element without trailing comma -/
-theorem evT_commaList (e : Expr) (h : inFrag e = true) (rest : List Tok) :
-    EvT (fun f => parseCommaList .testOrStar f (renderExpr e ++ tNewline :: rest)) (([e], false), tNewline :: rest) := by
-  obtain ⟨n, hn⟩ := evT_parseTest e h (tNewline :: rest) (stop1_newline rest)
-  obtain ⟨t, r, hr, hg⟩ := renderExpr_head e h
-  refine ⟨n + 2, fun f hf => ?_⟩
-  obtain ⟨f1, rfl⟩ : ∃ f1, f = f1 + 2 := ⟨f - 2, by omega⟩
-  have h1 := hn f1 (by omega)
-  simp only [] at h1
-  rw [hr, List.cons_append] at h1 ⊢
-  unfold parseCommaList
-  simp only [parseElem, parseTestOrStar_of_head (goodHead_not_star hg), h1]
-  simp [tNewline]
-
-theorem evT_namedTest (e : Expr) (h : inFrag e = true) (rest : List Tok) :
-    EvT (fun f => parseNamedTest f (renderExpr e ++ .op .colon :: rest)) (e, .op .colon :: rest) := by
-  obtain ⟨n, hn⟩ := evT_parseTest e h (.op .colon :: rest) (stop1_colon rest)
-  refine ⟨n + 1, fun f hf => ?_⟩
-  obtain ⟨f1, rfl⟩ : ∃ f1, f = f1 + 1 := ⟨f - 1, by omega⟩
-  have h1 := hn f1 (by omega)
-  simp only [] at h1 ⊢
-  rw [parseNamedTest.eq_3, h1]
-  intro n' r' hh
-  -- `:=` does not occur in the rendering, and the token after it is `:`
-  have hw := noWalrus (fun _ => true) e h 1
-  have : Tok.op .walrus ∈ renderExpr e ++ .op .colon :: rest → Tok.op .walrus ∈ renderExpr e ∨ Tok.op .walrus ∈ Tok.op .colon :: rest := by
-    intro hm; exact List.mem_append.mp hm
-  obtain ⟨t, r, hr, _⟩ := renderExpr_head e h
-  rw [hr, List.cons_append] at hh
-  simp only [List.cons.injEq] at hh
-  obtain ⟨_, h2⟩ := hh
-  cases r with
-  | nil => simp at h2
-  | cons x xs =>
-    simp only [List.cons_append, List.cons.injEq] at h2
-    have : Tok.op .walrus ∈ toks (unparse (fun _ => true) e 1) := by
-      show Tok.op .walrus ∈ renderExpr e
-      rw [hr, h2.1]; simp
-    exact hw this
-
-
-/-- what `parseBlock` and `parseProgramBody` do for one statement -/
-def parseFirst (f : Nat) (ts : List Tok) : PR (List Stmt) :=
-  if startsCompound ts then
-    (match parseCompound f ts with
-     | some (s, r) => some ([s], r)
-     | none => none)
-  else parseSimpleLine f ts
-
-/-- the input does not go on with `else` / `elif` -/
+/-- the input does not go on with a clause keyword of a compound statement -/
 def ElseFree : List Tok → Prop
   | [] => True
-  | t :: _ => t ≠ .kw .else ∧ tk t ≠ .hk .elif ∧ tk t ≠ .newline
+  | t :: _ => t ≠ .kw .else ∧ tk t ≠ .hk .elif ∧ tk t ≠ .hk .except ∧ tk t ≠ .hk .finally
 
-theorem startsExpr_of_goodHead {t : Tok} (h : goodHead 1 t = true) (r : List Tok) : startsExpr (t :: r) = true := by
-  unfold goodHead at h
-  split at h <;> simp_all [startsExpr]
+/-- first token of a rendered statement -/
+def StmtHeadOk (t : Tok) : Prop :=
+  t ≠ .kw .else ∧ tk t ≠ .hk .elif ∧ tk t ≠ .hk .except ∧ tk t ≠ .hk .finally ∧ tk t ≠ .newline ∧ tk t ≠ .dedent
 
-/-! simple statements -/
+theorem stmtHeadOk_tok {k : HK} (h : k ≠ .elif ∧ k ≠ .except ∧ k ≠ .finally) : StmtHeadOk k.tok := by
+  refine ⟨by cases k <;> simp [HK.tok], ?_, ?_, ?_, ?_, ?_⟩ <;> rw [tk_tok] <;> simp [h]
 
-theorem evT_pass (rest : List Tok) : EvT (fun f => parseFirst f (renderStmt .pass ++ rest)) ([.pass], rest) := by
-  refine ⟨3, fun f hf => ?_⟩
-  obtain ⟨f1, rfl⟩ : ∃ f1, f = f1 + 3 := ⟨f - 3, by omega⟩
-  simp [renderStmt, parseFirst, startsCompound, parseSimpleLine, parseSmall, tk, HK.tok, HK.text, hardKw, tNewline]
+theorem stmtHeadOk_of_plain {t : Tok} (h : tk t = .plain) (he : t ≠ .kw .else) : StmtHeadOk t :=
+  ⟨he, by rw [h]; simp, by rw [h]; simp, by rw [h]; simp, by rw [h]; simp, by rw [h]; simp⟩
 
-theorem evT_break (rest : List Tok) : EvT (fun f => parseFirst f (renderStmt .break ++ rest)) ([.break], rest) := by
-  refine ⟨3, fun f hf => ?_⟩
-  obtain ⟨f1, rfl⟩ : ∃ f1, f = f1 + 3 := ⟨f - 3, by omega⟩
-  simp [renderStmt, parseFirst, startsCompound, parseSimpleLine, parseSmall, tk, HK.tok, HK.text, hardKw, tNewline]
+theorem elseFree_of_headOk {t : Tok} {r : List Tok} (h : StmtHeadOk t) : ElseFree (t :: r) := ⟨h.1, h.2.1, h.2.2.1, h.2.2.2.1⟩
 
-theorem evT_continue (rest : List Tok) : EvT (fun f => parseFirst f (renderStmt .continue ++ rest)) ([.continue], rest) := by
-  refine ⟨3, fun f hf => ?_⟩
-  obtain ⟨f1, rfl⟩ : ∃ f1, f = f1 + 3 := ⟨f - 3, by omega⟩
-  simp [renderStmt, parseFirst, startsCompound, parseSimpleLine, parseSmall, tk, HK.tok, HK.text, hardKw, tNewline]
+theorem elseFree_dedent (r : List Tok) : ElseFree (tDedent :: r) :=
+  ⟨by simp [tDedent], by rw [tk_tDedent]; simp, by rw [tk_tDedent]; simp, by rw [tk_tDedent]; simp⟩
 
-theorem evT_return_none (rest : List Tok) :
-    EvT (fun f => parseFirst f (renderStmt (.return none) ++ rest)) ([.return none], rest) := by
-  refine ⟨3, fun f hf => ?_⟩
-  obtain ⟨f1, rfl⟩ : ∃ f1, f = f1 + 3 := ⟨f - 3, by omega⟩
-  simp [renderStmt, parseFirst, startsCompound, parseSimpleLine, parseSmall, tk, HK.tok, HK.text, hardKw, tNewline, startsExpr]
+theorem elseFree_hk {k : HK} (h : k ≠ .elif ∧ k ≠ .except ∧ k ≠ .finally) (r : List Tok) : ElseFree (k.tok :: r) :=
+  elseFree_of_headOk (stmtHeadOk_tok h)
 
-theorem tk_tok (k : HK) : tk k.tok = .hk k := by cases k <;> rfl
+/-- one rendered statement is read back by `parseFirst` -/
+def StmtRT (s : Stmt) : Prop :=
+  ∀ rest, ElseFree rest → EvT (fun f => parseFirst f (renderStmt s ++ rest)) ([s], rest)
 
-theorem tok_ne_yield (k : HK) : k.tok ≠ .kw .yield := by cases k <;> simp [HK.tok]
-theorem tok_ne_from (k : HK) : k.tok ≠ .kw .from := by cases k <;> simp [HK.tok]
+/-- a rendered non-empty block followed by DEDENT is read back by `parseBlock` -/
+def BlockRT (ss : List Stmt) : Prop :=
+  ss ≠ [] → ∀ rest, EvT (fun f => parseBlock f (renderBlock ss ++ tDedent :: rest)) (ss, rest)
 
-theorem parseSmall_hk (k : HK) (f : Nat) (r : List Tok) :
-    parseSmall (f + 1) (k.tok :: r) = parseSmall (f + 1) (k.tok :: r) := rfl
+theorem stmtRT_of_small {s : Stmt} {body : List Tok} (hr : renderStmt s = body ++ [tNewline]) (h : SmallRT s body) :
+    StmtRT s := by
+  intro rest _
+  rw [hr, List.append_assoc]
+  exact first_of_small h rest
 
-theorem evT_return_some (e : Expr) (h : inFrag e = true) (rest : List Tok) :
-    EvT (fun f => parseFirst f (renderStmt (.return (some e)) ++ rest)) ([.return (some e)], rest) := by
-  obtain ⟨n, hn⟩ := evT_commaList e h rest
-  obtain ⟨t, r, hr, hg⟩ := renderExpr_head e h
-  refine ⟨n + 3, fun f hf => ?_⟩
-  obtain ⟨f1, rfl⟩ : ∃ f1, f = f1 + 3 := ⟨f - 3, by omega⟩
-  have h1 := hn (f1 + 1) (by omega)
-  have hse : startsExpr (renderExpr e ++ tNewline :: rest) = true := by
-    rw [hr, List.cons_append]; exact startsExpr_of_goodHead hg _
-  simp only [] at h1
-  simp only [renderStmt, List.cons_append, List.append_assoc, List.nil_append, parseFirst]
-  have hS : parseSmall (f1 + 2) (HK.tok .return :: (renderExpr e ++ tNewline :: rest)) =
-      some (.return (some e), tNewline :: rest) := by
-    unfold parseSmall
-    split
-    · rename_i hh; simp at hh
-    · rename_i hh; simp at hh
-    · rename_i hh; simp only [List.cons.injEq] at hh; exact absurd hh.1 (tok_ne_yield _)
-    · rename_i hh; simp only [List.cons.injEq] at hh; exact absurd hh.1 (tok_ne_from _)
-    · rename_i f' t' r' _ _ hf' hh
-      simp only [List.cons.injEq] at hh
-      obtain ⟨rfl, rfl⟩ := hh
-      have : f' = f1 + 1 := by omega
-      subst this
-      simp [tk_tok, hse, parseTestListS, h1, genericList]
-  have hL : parseSimpleLine (f1 + 3) (HK.tok .return :: (renderExpr e ++ tNewline :: rest)) =
-      some ([.return (some e)], rest) := by
-    rw [parseSimpleLine, hS]
-    simp [tk_tNewline]
-  have hc : startsCompound (HK.tok .return :: (renderExpr e ++ tNewline :: rest)) = false := by
-    simp only [startsCompound, HK.tok]
-    rfl
-  simp [hc, hL]
-
-theorem evT_expr (e : Expr) (h : inFrag e = true) (rest : List Tok) :
-    EvT (fun f => parseFirst f (renderStmt (.expr e) ++ rest)) ([.expr e], rest) := by
-  obtain ⟨n, hn⟩ := evT_commaList e h rest
-  obtain ⟨t, r, hr, hg⟩ := renderExpr_head e h
-  refine ⟨n + 3, fun f hf => ?_⟩
-  obtain ⟨f1, rfl⟩ : ∃ f1, f = f1 + 3 := ⟨f - 3, by omega⟩
-  have h1 := hn f1 (by omega)
-  simp only [] at h1
-  obtain ⟨d1, d2, d3, d4⟩ := dispatch_of_not_stmtHead (goodHead_not_stmtHead hg) (r ++ tNewline :: rest)
-  simp only [renderStmt, List.append_assoc, List.cons_append, List.nil_append, parseFirst]
-  rw [hr, List.cons_append] at h1 ⊢
-  have hE : parseExprStmt (f1 + 1) (t :: (r ++ tNewline :: rest)) = some (.expr e, tNewline :: rest) := by
-    unfold parseExprStmt
-    simp only [tNewline] at h1 ⊢
-    simp [h1, genericList, tk]
-  have hS : parseSmall (f1 + 2) (t :: (r ++ tNewline :: rest)) = some (.expr e, tNewline :: rest) := by
-    unfold parseSmall
-    split <;> simp_all
-  have hL : parseSimpleLine (f1 + 3) (t :: (r ++ tNewline :: rest)) = some ([.expr e], rest) := by
-    rw [parseSimpleLine, hS]
-    simp [tk_tNewline]
-  simp [d2, hL]
-
-/-! blocks and compound statements -/
-
-theorem tk_tIndent : tk tIndent = .indent := by decide
-theorem tk_tDedent : tk tDedent = .dedent := by decide
+/-! ## suites, `else`, `finally` -/
 
 theorem parseSuite_block (f : Nat) (ts : List Tok) :
     parseSuite (f + 1) (tNewline :: tIndent :: ts) = parseBlock f ts := by
@@ -207,6 +72,205 @@ theorem parseBlock_unfold (f : Nat) (ts : List Tok) :
   rw [parseBlock]
   rfl
 
+/-- a suite after its `:` -/
+theorem suiteRT {b : List Stmt} (hb : BlockRT b) (hne : b ≠ []) (rest : List Tok) :
+    EvT (fun f => parseSuite f (tNewline :: tIndent :: (renderBlock b ++ tDedent :: rest))) (b, rest) := by
+  obtain ⟨n, hn⟩ := hb hne rest
+  refine ⟨n + 1, fun f hf => ?_⟩
+  obtain ⟨f1, rfl⟩ : ∃ f1, f = f1 + 1 := ⟨f - 1, by omega⟩
+  have h1 := hn f1 (by omega)
+  simp only [] at h1 ⊢
+  rw [parseSuite_block, h1]
+
+theorem suiteToks_append (block rest : List Tok) :
+    suiteToks block ++ rest = tColon :: tNewline :: tIndent :: (block ++ tDedent :: rest) := by
+  simp [suiteToks]
+
+/-- the optional block as `parseElse` / `parseFinally` return it -/
+def blockOpt (o : List Stmt) : Option (List Stmt) := if o.isEmpty then none else some o
+
+theorem blockOpt_getD (o : List Stmt) : (blockOpt o).getD [] = o := by
+  cases o <;> simp [blockOpt]
+
+/-- the input does not go on with `else` -/
+def NotElse (ts : List Tok) : Prop := ∀ r, ts ≠ .kw .else :: r
+
+/-- the input does not go on with `finally` -/
+def NotFinally : List Tok → Prop
+  | [] => True
+  | t :: _ => tk t ≠ .hk .finally
+
+/-- the input does not go on with `except` -/
+def NotExcept : List Tok → Prop
+  | [] => True
+  | t :: _ => tk t ≠ .hk .except
+
+theorem ElseFree.notElse {ts : List Tok} (h : ElseFree ts) : NotElse ts := by
+  intro r hh; subst hh; exact h.1 rfl
+
+theorem ElseFree.notFinally {ts : List Tok} (h : ElseFree ts) : NotFinally ts := by
+  cases ts with
+  | nil => trivial
+  | cons t r => exact h.2.2.2
+
+theorem ElseFree.notExcept {ts : List Tok} (h : ElseFree ts) : NotExcept ts := by
+  cases ts with
+  | nil => trivial
+  | cons t r => exact h.2.2.1
+
+theorem parseElse_none (f : Nat) (ts : List Tok) (h : NotElse ts) : parseElse (f + 1) ts = some (none, ts) := by
+  cases ts with
+  | nil => simp [parseElse]
+  | cons t r =>
+    have ht : t ≠ .kw .else := fun e => h r (by rw [e])
+    rw [parseElse.eq_4]
+    · intro r' hh; simp only [List.cons.injEq] at hh; exact ht hh.1
+    · intro r' hh; simp only [List.cons.injEq] at hh; exact ht hh.1
+
+theorem evT_else (o : List Stmt) (ho : BlockRT o) (rest : List Tok) (hr : NotElse rest) :
+    EvT (fun f => parseElse f (elseToks o (renderBlock o) ++ rest)) (blockOpt o, rest) := by
+  cases o with
+  | nil =>
+    refine ⟨1, fun f hf => ?_⟩
+    obtain ⟨f1, rfl⟩ : ∃ f1, f = f1 + 1 := ⟨f - 1, by omega⟩
+    simp only [elseToks, List.isEmpty_nil, if_true, List.nil_append, blockOpt]
+    exact parseElse_none f1 rest hr
+  | cons s ss =>
+    obtain ⟨n, hn⟩ := suiteRT ho (by simp) rest
+    refine ⟨n + 1, fun f hf => ?_⟩
+    obtain ⟨f1, rfl⟩ : ∃ f1, f = f1 + 1 := ⟨f - 1, by omega⟩
+    have h1 := hn f1 (by omega)
+    simp only [] at h1 ⊢
+    simp only [elseToks, List.isEmpty_cons, Bool.false_eq_true, if_false, List.cons_append, suiteToks_append, tColon, blockOpt]
+    rw [parseElse, h1]
+
+theorem parseFinally_none (f : Nat) (ts : List Tok) (h : NotFinally ts) : parseFinally (f + 1) ts = some (none, ts) := by
+  cases ts with
+  | nil => simp [parseFinally]
+  | cons t r =>
+    have ht : tk t ≠ .hk .finally := h
+    simp [parseFinally, ht]
+
+theorem evT_finally (o : List Stmt) (ho : BlockRT o) (rest : List Tok) (hr : NotFinally rest) :
+    EvT (fun f => parseFinally f (finallyToks o (renderBlock o) ++ rest)) (blockOpt o, rest) := by
+  cases o with
+  | nil =>
+    refine ⟨1, fun f hf => ?_⟩
+    obtain ⟨f1, rfl⟩ : ∃ f1, f = f1 + 1 := ⟨f - 1, by omega⟩
+    simp only [finallyToks, List.isEmpty_nil, if_true, List.nil_append, blockOpt]
+    exact parseFinally_none f1 rest hr
+  | cons s ss =>
+    obtain ⟨n, hn⟩ := suiteRT ho (by simp) rest
+    refine ⟨n + 1, fun f hf => ?_⟩
+    obtain ⟨f1, rfl⟩ : ∃ f1, f = f1 + 1 := ⟨f - 1, by omega⟩
+    have h1 := hn f1 (by omega)
+    simp only [] at h1 ⊢
+    simp only [finallyToks, List.isEmpty_cons, Bool.false_eq_true, if_false, List.cons_append, suiteToks_append, tColon, blockOpt]
+    rw [parseFinally]
+    simp only [tk_tok, if_true, h1]
+
+/-- what follows a suite that may be followed by `else` -/
+theorem elseFree_elseToks (o : List Stmt) (blk rest : List Tok) (h : ElseFree rest) :
+    ElseFree (elseToks o blk ++ rest) ∨ ∃ r, elseToks o blk ++ rest = .kw .else :: r := by
+  cases o with
+  | nil => exact Or.inl (by simpa [elseToks] using h)
+  | cons s ss => exact Or.inr ⟨suiteToks blk ++ rest, by simp [elseToks]⟩
+
+/-! ## the dispatch of `CompoundStatement` on a statement keyword -/
+
+macro "compound_hk" : tactic => `(tactic| (
+  unfold parseCompound
+  split
+  all_goals (try (rename_i hh; simp [HK.tok] at hh; done))
+  all_goals (try (rename_i hh _; simp [HK.tok] at hh; done))
+  rename_i f' t' r' _ _ _ _ _ _ hf' hh
+  simp only [List.cons.injEq] at hh
+  obtain ⟨hh1, hh2⟩ := hh
+  subst hh1
+  subst hh2
+  simp only [Nat.succ_eq_add_one, Nat.add_right_cancel_iff] at hf'
+  subst hf'
+  rw [tk_tok]
+  all_goals rfl))
+
+theorem parseCompound_while (f : Nat) (r : List Tok) :
+    parseCompound (f + 1) (HK.tok .while :: r) =
+      (match parseNamedTest f r with
+       | some (test, .op .colon :: r1) =>
+         (match parseSuite f r1 with
+          | some (body, r2) =>
+            (match parseElse f r2 with
+             | some (oe, r3) => some (.while test body (oe.getD []), r3)
+             | none => none)
+          | none => none)
+       | _ => none) := by compound_hk
+
+theorem parseCompound_with (f : Nat) (r : List Tok) :
+    parseCompound (f + 1) (HK.tok .with :: r) = parseWith f false r := by compound_hk
+
+theorem parseCompound_def (f : Nat) (r : List Tok) :
+    parseCompound (f + 1) (HK.tok .def :: r) = parseDef f false [] r := by compound_hk
+
+theorem parseCompound_class (f : Nat) (r : List Tok) :
+    parseCompound (f + 1) (HK.tok .class :: r) = parseClass f [] r := by compound_hk
+
+theorem parseCompound_try (f : Nat) (r : List Tok) :
+    parseCompound (f + 1) (HK.tok .try :: r) =
+      (match r with
+       | .op .colon :: r1 =>
+         (match parseSuite f r1 with
+          | some (body, t2 :: r2) =>
+            (match tk t2 with
+             | .hk .finally =>
+               (match r2 with
+                | .op .colon :: r3 =>
+                  (match parseSuite f r3 with
+                   | some (fb, r4) => some (.try body [] [] fb, r4)
+                   | none => none)
+                | _ => none)
+             | .hk .except =>
+               let star : Bool := match r2 with | .op .star :: _ => true | _ => false
+               (match parseHandlers f star (t2 :: r2) with
+                | some (hs, r3) =>
+                  (match parseElse f r3 with
+                   | some (oe, r4) =>
+                     (match parseFinally f r4 with
+                      | some (fb, r5) =>
+                        if star then some (.tryStar body hs (oe.getD []) (fb.getD []), r5)
+                        else some (.try body hs (oe.getD []) (fb.getD []), r5)
+                      | none => none)
+                   | none => none)
+                | none => none)
+             | _ => none)
+          | _ => none)
+       | _ => none) := by compound_hk
+
+theorem parseCompound_match (f : Nat) (r : List Tok) :
+    parseCompound (f + 1) (HK.tok .match :: r) =
+      (match parseCommaList .starOrNamed f r with
+       | some ((es, tc), .op .colon :: t1 :: t2 :: r1) =>
+         if tk t1 = .newline ∧ tk t2 = .indent then
+           (match parseCases f r1 with
+            | some (cs, r2) => some (.match (genericList (es, tc)) cs, r2)
+            | none => none)
+         else none
+       | _ => none) := by compound_hk
+
+theorem startsCompound_hk_true {k : HK} (hk : k = .while ∨ k = .try ∨ k = .with ∨ k = .def ∨ k = .class ∨ k = .match)
+    (r : List Tok) : startsCompound (k.tok :: r) = true := by
+  rcases hk with rfl | rfl | rfl | rfl | rfl | rfl <;> rfl
+
+/-- a compound statement read by `parseCompound` is read by `parseFirst` -/
+theorem first_of_compound {s : Stmt} {ts rest : List Tok} (hc : startsCompound ts = true)
+    (h : EvT (fun f => parseCompound f ts) (s, rest)) : EvT (fun f => parseFirst f ts) ([s], rest) := by
+  obtain ⟨n, hn⟩ := h
+  refine ⟨n, fun f hf => ?_⟩
+  have h1 := hn f hf
+  simp only [] at h1 ⊢
+  simp [parseFirst, hc, h1]
+
+/-! ## if, while, for -/
+
 theorem parseElifs_none (f : Nat) (ts : List Tok) (h : ElseFree ts ∨ ∃ r, ts = .kw .else :: r) :
     parseElifs (f + 1) ts = some ([], ts) := by
   cases ts with
@@ -218,55 +282,1081 @@ theorem parseElifs_none (f : Nat) (ts : List Tok) (h : ElseFree ts ∨ ∃ r, ts
       · simp only [List.cons.injEq] at h; rw [h.1]; decide
     simp [parseElifs, this]
 
-theorem parseElse_none (f : Nat) (ts : List Tok) (h : ElseFree ts) : parseElse (f + 1) ts = some (none, ts) := by
-  cases ts with
-  | nil => simp [parseElse]
-  | cons t r =>
-    have ht : t ≠ .kw .else := h.1
-    rw [parseElse.eq_4]
-    · intro r' hh; simp only [List.cons.injEq] at hh; exact ht hh.1
-    · intro r' hh; simp only [List.cons.injEq] at hh; exact ht hh.1
+/-- `test ":" suite ("else" suite)?` after the keyword, as `if` and `while` read it -/
+theorem headerRT {t : Expr} {b o : List Stmt} (ht : GoodP P0 t) (hbne : b ≠ []) (hb : BlockRT b) (ho : BlockRT o)
+    (rest : List Tok) (hrest : ElseFree rest) :
+    ∃ n, ∀ f, n ≤ f →
+      parseNamedTest f (renderExpr t ++ (suiteToks (renderBlock b) ++ (elseToks o (renderBlock o) ++ rest))) =
+        some (t, .op .colon :: tNewline :: tIndent :: (renderBlock b ++ tDedent :: (elseToks o (renderBlock o) ++ rest))) ∧
+      parseSuite f (tNewline :: tIndent :: (renderBlock b ++ tDedent :: (elseToks o (renderBlock o) ++ rest))) =
+        some (b, elseToks o (renderBlock o) ++ rest) ∧
+      parseElse f (elseToks o (renderBlock o) ++ rest) = some (blockOpt o, rest) := by
+  obtain ⟨n1, hn1⟩ := evT_namedTest ht endTok_colon (by decide) (by decide)
+    (tNewline :: tIndent :: (renderBlock b ++ tDedent :: (elseToks o (renderBlock o) ++ rest)))
+  obtain ⟨n2, hn2⟩ := suiteRT hb hbne (elseToks o (renderBlock o) ++ rest)
+  obtain ⟨n3, hn3⟩ := evT_else o ho rest hrest.notElse
+  refine ⟨max n1 (max n2 n3), fun f hf => ⟨?_, hn2 f (by omega), hn3 f (by omega)⟩⟩
+  have h1 := hn1 f (by omega)
+  simp only [] at h1
+  simp only [renderExpr_eq, suiteToks_append, tColon]
+  exact h1
 
-/-- first token of a rendered statement -/
-def HeadOk (t : Tok) : Prop := t ≠ .kw .else ∧ tk t ≠ .hk .elif ∧ tk t ≠ .newline ∧ tk t ≠ .dedent
+theorem stmtRT_if {t : Expr} {b o : List Stmt} (ht : GoodP P0 t) (hbne : b ≠ []) (hb : BlockRT b) (ho : BlockRT o) :
+    StmtRT (.if t b o) := by
+  intro rest hrest
+  refine first_of_compound (by simp [renderStmt, startsCompound]) ?_
+  obtain ⟨n, hn⟩ := headerRT ht hbne hb ho rest hrest
+  refine ⟨n + 2, fun f hf => ?_⟩
+  obtain ⟨f1, rfl⟩ : ∃ f1, f = f1 + 2 := ⟨f - 2, by omega⟩
+  obtain ⟨h1, h2, h3⟩ := hn (f1 + 1) (by omega)
+  simp only [renderStmt, List.cons_append, List.append_assoc]
+  rw [parseCompound, h1]
+  simp only [h2]
+  rw [parseElifs_none _ _ (elseFree_elseToks o _ rest hrest)]
+  simp only [h3]
+  simp [ifAssemble, elifFold, blockOpt_getD]
 
-theorem headOk_tok {k : HK} (h : k ≠ .elif) : HeadOk k.tok := by
-  refine ⟨by cases k <;> simp [HK.tok], ?_, ?_, ?_⟩ <;> rw [tk_tok] <;> simp [h]
+theorem stmtRT_while {t : Expr} {b o : List Stmt} (ht : GoodP P0 t) (hbne : b ≠ []) (hb : BlockRT b) (ho : BlockRT o) :
+    StmtRT (.while t b o) := by
+  intro rest hrest
+  refine first_of_compound (by simp only [renderStmt, List.cons_append]; exact startsCompound_hk_true (by simp) _) ?_
+  obtain ⟨n, hn⟩ := headerRT ht hbne hb ho rest hrest
+  refine ⟨n + 1, fun f hf => ?_⟩
+  obtain ⟨f1, rfl⟩ : ∃ f1, f = f1 + 1 := ⟨f - 1, by omega⟩
+  obtain ⟨h1, h2, h3⟩ := hn f1 (by omega)
+  simp only [renderStmt, List.cons_append, List.append_assoc]
+  rw [parseCompound_while, h1]
+  simp only [h2, h3, blockOpt_getD]
 
-theorem headOk_of_goodHead {t : Tok} (h : goodHead 1 t = true) : HeadOk t := by
-  have hp := (dispatch_of_not_stmtHead (goodHead_not_stmtHead h) []).1
-  refine ⟨?_, by rw [hp]; simp, by rw [hp]; simp, by rw [hp]; simp⟩
-  intro e; subst e; simp [goodHead] at h
+theorem parseTargetList_one {f : Nat} {ts : List Tok} {t : Expr} {rest : List Tok}
+    (h : parseExprOrStar f ts = some (t, .kw .in :: rest)) : parseTargetList (f + 1) ts = some (t, .kw .in :: rest) := by
+  rw [parseTargetList, h]
 
-theorem renderStmt_head : (s : Stmt) → inFragS s = true → ∃ t r, renderStmt s = t :: r ∧ HeadOk t
-  | .pass, _ => ⟨_, _, rfl, headOk_tok (by decide)⟩
-  | .break, _ => ⟨_, _, rfl, headOk_tok (by decide)⟩
-  | .continue, _ => ⟨_, _, rfl, headOk_tok (by decide)⟩
-  | .return none, _ => ⟨_, _, rfl, headOk_tok (by decide)⟩
-  | .return (some _), _ => ⟨_, _, rfl, headOk_tok (by decide)⟩
-  | .if _ _ _, _ => ⟨_, _, rfl, by refine ⟨by simp, by decide, by decide, by decide⟩⟩
-  | .while _ _ _, _ => ⟨_, _, rfl, headOk_tok (by decide)⟩
+theorem parseFor_rt {a : Bool} {t i : Expr} {b o : List Stmt} (ht : ElemOK P0 t) (hi : ElemOK P0 i) (hbne : b ≠ [])
+    (hb : BlockRT b) (ho : BlockRT o) (rest : List Tok) (hrest : ElseFree rest) :
+    EvT (fun f => parseFor f a (rx 6 t ++ .kw .in :: (rx 1 i ++ (suiteToks (renderBlock b) ++ elseToks o (renderBlock o))) ++ rest))
+      (if a then .asyncFor t i b o else .for t i b o, rest) := by
+  obtain ⟨n1, hn1⟩ := evT_exprOrStar ht contTok_in_6
+    (rx 1 i ++ (tColon :: tNewline :: tIndent :: (renderBlock b ++ tDedent :: (elseToks o (renderBlock o) ++ rest))))
+  obtain ⟨n2, hn2⟩ := evT_testListS hi endTok_colon (by decide)
+    (tNewline :: tIndent :: (renderBlock b ++ tDedent :: (elseToks o (renderBlock o) ++ rest)))
+  obtain ⟨n3, hn3⟩ := suiteRT hb hbne (elseToks o (renderBlock o) ++ rest)
+  obtain ⟨n4, hn4⟩ := evT_else o ho rest hrest.notElse
+  refine ⟨max (max n1 n2) (max n3 n4) + 2, fun f hf => ?_⟩
+  obtain ⟨f1, rfl⟩ : ∃ f1, f = f1 + 2 := ⟨f - 2, by omega⟩
+  have h1 := hn1 f1 (by omega)
+  have h2 := hn2 (f1 + 1) (by omega)
+  have h3 := hn3 (f1 + 1) (by omega)
+  have h4 := hn4 (f1 + 1) (by omega)
+  simp only [] at h1 h2 h3 h4 ⊢
+  simp only [List.append_assoc, List.cons_append, suiteToks_append, tColon] at h1 h2 ⊢
+  rw [parseFor, parseTargetList_one h1]
+  simp only [h2, h3, h4, blockOpt_getD]
+  cases a <;> rfl
+
+theorem stmtRT_for {t i : Expr} {b o : List Stmt} (ht : ElemOK P0 t) (hi : ElemOK P0 i) (hbne : b ≠ [])
+    (hb : BlockRT b) (ho : BlockRT o) : StmtRT (.for t i b o) := by
+  intro rest hrest
+  refine first_of_compound (by simp [renderStmt, forToks, asyncToks, startsCompound]) ?_
+  obtain ⟨n, hn⟩ := parseFor_rt (a := false) ht hi hbne hb ho rest hrest
+  refine ⟨n + 1, fun f hf => ?_⟩
+  obtain ⟨f1, rfl⟩ : ∃ f1, f = f1 + 1 := ⟨f - 1, by omega⟩
+  have h1 := hn f1 (by omega)
+  simp only [] at h1 ⊢
+  simp only [renderStmt, forToks, asyncToks, Bool.false_eq_true, if_false, List.nil_append, List.cons_append]
+  rw [parseCompound]
+  simpa using h1
+
+theorem stmtRT_asyncFor {t i : Expr} {b o : List Stmt} (ht : ElemOK P0 t) (hi : ElemOK P0 i) (hbne : b ≠ [])
+    (hb : BlockRT b) (ho : BlockRT o) : StmtRT (.asyncFor t i b o) := by
+  intro rest hrest
+  refine first_of_compound (by simp [renderStmt, forToks, asyncToks, startsCompound]) ?_
+  obtain ⟨n, hn⟩ := parseFor_rt (a := true) ht hi hbne hb ho rest hrest
+  refine ⟨n + 1, fun f hf => ?_⟩
+  obtain ⟨f1, rfl⟩ : ∃ f1, f = f1 + 1 := ⟨f - 1, by omega⟩
+  have h1 := hn f1 (by omega)
+  simp only [] at h1 ⊢
+  simp only [renderStmt, forToks, asyncToks, if_true, List.cons_append, List.nil_append]
+  rw [parseCompound]
+  simpa using h1
+
+/-! ## try -/
+
+/-- the side conditions of one handler -/
+def handlerOk (star : Bool) (ty : Option Expr) (nm : Option Ident) : Prop :=
+  GoodOpt P0 ty ∧ (ty.isSome = true ∨ (nm = none ∧ star = false))
+
+/-- the part of `parseExceptHeader` after the optional `*` -/
+def exceptTail (f : Nat) (ts1 : List Tok) : PR (Option Expr × Option Ident) :=
+  match parseTest f ts1 with
+  | some (e, .op .colon :: r) => some ((some e, none), r)
+  | some (e, t :: .name n :: .op .colon :: r) => if tk t = .hk .as then some ((some e, some n), r) else none
+  | _ => none
+
+theorem parseExceptHeader_nostar (f : Nat) (ts : List Tok) (h : ∀ r, ts ≠ .op .colon :: r) :
+    parseExceptHeader (f + 1) false ts = exceptTail f ts := by
+  unfold parseExceptHeader
+  split
+  · omega
+  · rename_i heq _; exact absurd rfl (h _)
+  · rename_i heq _
+    simp only [Nat.succ_eq_add_one, Nat.add_right_cancel_iff] at heq
+    subst heq
+    rfl
+
+theorem parseExceptHeader_star (f : Nat) (r : List Tok) :
+    parseExceptHeader (f + 1) true (.op .star :: r) = exceptTail f r := by
+  unfold parseExceptHeader
+  split
+  · omega
+  · rename_i heq _; simp at heq
+  · rename_i heq _
+    simp only [Nat.succ_eq_add_one, Nat.add_right_cancel_iff] at heq
+    subst heq
+    rfl
+
+theorem exceptTailRT {e : Expr} (he : GoodP P0 e) (nm : Option Ident) (R : List Tok) :
+    EvT (fun f => exceptTail f (rx 1 e ++ (asToks nm ++ .op .colon :: R))) ((some e, nm), R) := by
+  cases nm with
+  | none =>
+    obtain ⟨n, hn⟩ := evT_test he endTok_colon R
+    refine ⟨n, fun f hf => ?_⟩
+    have h1 := hn f hf
+    simp only [] at h1 ⊢
+    simp only [asToks, List.nil_append, exceptTail, h1]
+  | some n0 =>
+    obtain ⟨n, hn⟩ := evT_test he (endTok_hk .as) (.name n0 :: .op .colon :: R)
+    refine ⟨n, fun f hf => ?_⟩
+    have h1 := hn f hf
+    simp only [] at h1 ⊢
+    simp only [asToks, List.cons_append, List.nil_append, exceptTail, h1]
+    have := tk_tok .as
+    simp only [HK.tok] at this ⊢
+    simp [this]
+
+/-- `"*"? (Test ("as" NAME)?)? ":"` after `except` -/
+theorem exceptHeaderRT {star : Bool} {ty : Option Expr} {nm : Option Ident} (h : handlerOk star ty nm) (R : List Tok) :
+    ∃ tl, exceptHead star ty nm = HK.tok .except :: tl ∧ (star = false → ∀ r, tl ++ .op .colon :: R ≠ .op .star :: r) ∧
+      (star = true → ∃ r, tl = .op .star :: r) ∧
+      EvT (fun f => parseExceptHeader f star (tl ++ .op .colon :: R)) ((ty, nm), R) := by
+  cases ty with
+  | none =>
+    obtain ⟨rfl, rfl⟩ : nm = none ∧ star = false := by simpa using h.2
+    refine ⟨[], by simp [exceptHead], fun _ r hh => by simp at hh, fun hh => by simp at hh, 1, fun f hf => ?_⟩
+    obtain ⟨f1, rfl⟩ : ∃ f1, f = f1 + 1 := ⟨f - 1, by omega⟩
+    simp [parseExceptHeader]
+  | some e =>
+    have he : GoodP P0 e := h.1
+    obtain ⟨t0, tr, ht0, hg⟩ := goodP_head he 1 (Nat.le_refl _)
+    have hns : t0 ≠ .op .star := by intro e'; subst e'; simp [goodHead] at hg
+    have hnc : t0 ≠ .op .colon := by intro e'; subst e'; simp [goodHead] at hg
+    obtain ⟨n, hn⟩ := exceptTailRT he nm R
+    cases star with
+    | false =>
+      refine ⟨rx 1 e ++ asToks nm, by simp [exceptHead], ?_, fun hh => by simp at hh, n + 1, fun f hf => ?_⟩
+      · intro _ r hh
+        simp only [ht0, List.cons_append, List.cons.injEq] at hh
+        exact hns hh.1
+      · obtain ⟨f1, rfl⟩ : ∃ f1, f = f1 + 1 := ⟨f - 1, by omega⟩
+        have h1 := hn f1 (by omega)
+        simp only [List.append_assoc] at h1 ⊢
+        rw [parseExceptHeader_nostar, h1]
+        intro r hh
+        simp only [ht0, List.cons_append, List.cons.injEq] at hh
+        exact hnc hh.1
+    | true =>
+      refine ⟨.op .star :: (rx 1 e ++ asToks nm), by simp [exceptHead], fun hh => by simp at hh, fun _ => ⟨_, rfl⟩,
+        n + 1, fun f hf => ?_⟩
+      obtain ⟨f1, rfl⟩ : ∃ f1, f = f1 + 1 := ⟨f - 1, by omega⟩
+      have h1 := hn f1 (by omega)
+      simp only [List.append_assoc, List.cons_append] at h1 ⊢
+      rw [parseExceptHeader_star, h1]
+
+/-- every handler of the list: header side conditions, non-empty body whose block round trips -/
+def HandlersOk (hs : List ExceptHandler) (star : Bool) : Prop :=
+  ∀ ty nm b, ExceptHandler.mk ty nm b ∈ hs → handlerOk star ty nm ∧ b ≠ [] ∧ BlockRT b
+
+theorem renderHandlers_head (h : ExceptHandler) (hs : List ExceptHandler) (star : Bool) (rest : List Tok) :
+    ∃ r, renderHandlers (h :: hs) star ++ rest = HK.tok .except :: r := by
+  cases h with
+  | mk ty nm b => exact ⟨_, by simp only [renderHandlers, exceptHead, List.cons_append]; rfl⟩
+
+theorem handlersRT {star : Bool} : (hs : List ExceptHandler) → hs ≠ [] → HandlersOk hs star → ∀ rest, NotExcept rest →
+    EvT (fun f => parseHandlers f star (renderHandlers hs star ++ rest)) (hs, rest)
+  | [], h, _, _, _ => absurd rfl h
+  | .mk ty nm b :: hs, _, hok, rest, hrest => by
+    obtain ⟨hh, hbne, hb⟩ := hok ty nm b (by simp)
+    obtain ⟨tl, htl, _, _, n1, hn1⟩ := exceptHeaderRT hh
+      (tNewline :: tIndent :: (renderBlock b ++ tDedent :: (renderHandlers hs star ++ rest)))
+    obtain ⟨n2, hn2⟩ := suiteRT hb hbne (renderHandlers hs star ++ rest)
+    have hform : renderHandlers (.mk ty nm b :: hs) star ++ rest =
+        HK.tok .except :: (tl ++ .op .colon :: tNewline :: tIndent ::
+          (renderBlock b ++ tDedent :: (renderHandlers hs star ++ rest))) := by
+      simp [renderHandlers, htl, suiteToks_append, tColon]
+    cases hs with
+    | nil =>
+      refine ⟨max n1 n2 + 1, fun f hf => ?_⟩
+      obtain ⟨f1, rfl⟩ : ∃ f1, f = f1 + 1 := ⟨f - 1, by omega⟩
+      have h1 := hn1 f1 (by omega)
+      have h2 := hn2 f1 (by omega)
+      simp only [renderHandlers, List.nil_append] at h1 h2 hform ⊢
+      rw [hform, parseHandlers]
+      simp only [tk_tok, if_true, h1, h2]
+      cases rest with
+      | nil => rfl
+      | cons t2 r2 =>
+        have : tk t2 ≠ .hk .except := hrest
+        simp [this]
+    | cons h2 hs' =>
+      obtain ⟨n3, hn3⟩ := handlersRT (h2 :: hs') (by simp)
+        (fun ty' nm' b' hm => hok ty' nm' b' (List.mem_cons_of_mem _ hm)) rest hrest
+      obtain ⟨r', hr'⟩ := renderHandlers_head h2 hs' star rest
+      refine ⟨max (max n1 n2) n3 + 1, fun f hf => ?_⟩
+      obtain ⟨f1, rfl⟩ : ∃ f1, f = f1 + 1 := ⟨f - 1, by omega⟩
+      have h1 := hn1 f1 (by omega)
+      have h2 := hn2 f1 (by omega)
+      have h3 := hn3 f1 (by omega)
+      simp only [] at h1 h2 h3 ⊢
+      rw [hform, parseHandlers]
+      simp only [tk_tok, if_true, h1, h2]
+      rw [hr'] at h3 ⊢
+      simp only [tk_tok, if_true, h3]
+
+/-- what follows the handlers -/
+theorem notExcept_tail (o f : List Stmt) (ob fb rest : List Tok) (h : ElseFree rest) :
+    NotExcept (elseToks o ob ++ (finallyToks f fb ++ rest)) := by
+  cases o with
+  | cons s ss => simp [elseToks, NotExcept, tk]
+  | nil =>
+    cases f with
+    | cons s ss => simp [elseToks, finallyToks, NotExcept, tk_tok]
+    | nil => simpa [elseToks, finallyToks] using h.notExcept
+
+theorem notElse_finally (f : List Stmt) (fb rest : List Tok) (h : ElseFree rest) : NotElse (finallyToks f fb ++ rest) := by
+  cases f with
+  | cons s ss => intro r hh; simp [finallyToks, HK.tok] at hh
+  | nil => simpa [finallyToks] using h.notElse
+
+/-- `try` with handlers (`star`: `try*`) -/
+theorem tryRT {star : Bool} {b : List Stmt} {hs : List ExceptHandler} {o fb : List Stmt} (hbne : b ≠ []) (hb : BlockRT b)
+    (hne : hs ≠ []) (hok : HandlersOk hs star) (ho : BlockRT o) (hfb : BlockRT fb) (rest : List Tok)
+    (hrest : ElseFree rest) :
+    EvT (fun f => parseCompound f (HK.tok .try :: (suiteToks (renderBlock b) ++ (renderHandlers hs star ++
+        (elseToks o (renderBlock o) ++ finallyToks fb (renderBlock fb)))) ++ rest))
+      (if star then .tryStar b hs o fb else .try b hs o fb, rest) := by
+  obtain ⟨n1, hn1⟩ := suiteRT hb hbne
+    (renderHandlers hs star ++ (elseToks o (renderBlock o) ++ (finallyToks fb (renderBlock fb) ++ rest)))
+  obtain ⟨n2, hn2⟩ := handlersRT hs hne hok (elseToks o (renderBlock o) ++ (finallyToks fb (renderBlock fb) ++ rest))
+    (notExcept_tail o fb _ _ rest hrest)
+  obtain ⟨n3, hn3⟩ := evT_else o ho (finallyToks fb (renderBlock fb) ++ rest) (notElse_finally fb _ rest hrest)
+  obtain ⟨n4, hn4⟩ := evT_finally fb hfb rest hrest.notFinally
+  cases hs with
+  | nil => exact absurd rfl hne
+  | cons h0 hs' =>
+    cases h0 with
+    | mk ty nm hb0 =>
+      obtain ⟨hh, _, _⟩ := hok ty nm hb0 (by simp)
+      obtain ⟨tl, htl, hns, hst, _⟩ := exceptHeaderRT hh
+        (tNewline :: tIndent :: (renderBlock hb0 ++ tDedent :: (renderHandlers hs' star ++
+          (elseToks o (renderBlock o) ++ (finallyToks fb (renderBlock fb) ++ rest)))))
+      have hform : renderHandlers (.mk ty nm hb0 :: hs') star ++
+          (elseToks o (renderBlock o) ++ (finallyToks fb (renderBlock fb) ++ rest)) =
+          HK.tok .except :: (tl ++ .op .colon :: tNewline :: tIndent :: (renderBlock hb0 ++ tDedent ::
+            (renderHandlers hs' star ++ (elseToks o (renderBlock o) ++ (finallyToks fb (renderBlock fb) ++ rest))))) := by
+        simp [renderHandlers, htl, suiteToks_append, tColon]
+      refine ⟨max (max n1 n2) (max n3 n4) + 1, fun f hf => ?_⟩
+      obtain ⟨f1, rfl⟩ : ∃ f1, f = f1 + 1 := ⟨f - 1, by omega⟩
+      have h1 := hn1 f1 (by omega)
+      have h2 := hn2 f1 (by omega)
+      have h3 := hn3 f1 (by omega)
+      have h4 := hn4 f1 (by omega)
+      simp only [] at h1 h2 h3 h4 ⊢
+      simp only [List.cons_append, List.append_assoc, suiteToks_append, tColon]
+      rw [parseCompound_try]
+      simp only [h1]
+      rw [hform] at h2 ⊢
+      simp only [tk_tok]
+      have hstar : (match tl ++ .op .colon :: tNewline :: tIndent :: (renderBlock hb0 ++ tDedent ::
+            (renderHandlers hs' star ++ (elseToks o (renderBlock o) ++ (finallyToks fb (renderBlock fb) ++ rest)))) with
+          | .op .star :: _ => true | _ => false) = star := by
+        cases star with
+        | true =>
+          obtain ⟨r, hr⟩ := hst rfl
+          rw [hr]; rfl
+        | false =>
+          split
+          · rename_i heq; exact absurd heq (hns rfl _)
+          · rfl
+      simp only [hstar, h2, h3, h4, blockOpt_getD]
+      cases star <;> rfl
+
+theorem stmtRT_try_handlers {b : List Stmt} {hs : List ExceptHandler} {o fb : List Stmt} (hbne : b ≠ []) (hb : BlockRT b)
+    (hne : hs ≠ []) (hok : HandlersOk hs false) (ho : BlockRT o) (hfb : BlockRT fb) : StmtRT (.try b hs o fb) := by
+  intro rest hrest
+  refine first_of_compound (by simp only [renderStmt, List.cons_append]; exact startsCompound_hk_true (by simp) _) ?_
+  simpa [renderStmt] using tryRT (star := false) hbne hb hne hok ho hfb rest hrest
+
+theorem stmtRT_tryStar {b : List Stmt} {hs : List ExceptHandler} {o fb : List Stmt} (hbne : b ≠ []) (hb : BlockRT b)
+    (hne : hs ≠ []) (hok : HandlersOk hs true) (ho : BlockRT o) (hfb : BlockRT fb) : StmtRT (.tryStar b hs o fb) := by
+  intro rest hrest
+  refine first_of_compound (by simp only [renderStmt, List.cons_append]; exact startsCompound_hk_true (by simp) _) ?_
+  simpa [renderStmt] using tryRT (star := true) hbne hb hne hok ho hfb rest hrest
+
+/-- `try: … finally: …` -/
+theorem stmtRT_try_finally {b fb : List Stmt} (hbne : b ≠ []) (hb : BlockRT b) (hfne : fb ≠ []) (hfb : BlockRT fb) :
+    StmtRT (.try b [] [] fb) := by
+  intro rest hrest
+  refine first_of_compound (by simp only [renderStmt, List.cons_append]; exact startsCompound_hk_true (by simp) _) ?_
+  obtain ⟨n1, hn1⟩ := suiteRT hb hbne (finallyToks fb (renderBlock fb) ++ rest)
+  obtain ⟨n2, hn2⟩ := suiteRT hfb hfne rest
+  cases fb with
+  | nil => exact absurd rfl hfne
+  | cons s ss =>
+    refine ⟨max n1 n2 + 1, fun f hf => ?_⟩
+    obtain ⟨f1, rfl⟩ : ∃ f1, f = f1 + 1 := ⟨f - 1, by omega⟩
+    have h1 := hn1 f1 (by omega)
+    have h2 := hn2 f1 (by omega)
+    simp only [] at h1 h2 ⊢
+    simp only [renderStmt, renderHandlers, elseToks, List.isEmpty_nil, if_true, List.nil_append, List.cons_append,
+      List.append_assoc, suiteToks_append, tColon, finallyToks, List.isEmpty_cons, Bool.false_eq_true, if_false] at h1 ⊢
+    rw [parseCompound_try]
+    simp only [h1, tk_tok, h2]
+
+/-! ## with -/
+
+/-- the items as the element reader returns them: expression, "is not a `Test`" flag, `as` target -/
+def withEls (items : List WithItem) : List WElem := items.map fun it => (it.contextExpr, false, it.optionalVars)
+
+def WithItemsOk (items : List WithItem) : Prop :=
+  ∀ it ∈ items, GoodP P0 it.contextExpr ∧ GoodOpt P0 it.optionalVars
+
+theorem bal_kwOther (s : List Nat) : Bal [Tok.kw (.other s)] := by
+  intro d hd rest
+  simp [afterClose]
+
+theorem withItem_bal (it : WithItem) : Bal (renderWithItem it) := by
+  cases it with
+  | mk e v =>
+    cases v with
+    | none => simpa [renderWithItem] using bal_rx 1 e
+    | some v =>
+      simp only [renderWithItem]
+      exact (bal_rx 1 e).append (Bal.append (bal_kwOther _) (bal_rx 6 v))
+
+theorem withItems_bal : (items : List WithItem) → Bal (sepBy tComma (items.map renderWithItem))
+  | [] => Bal.nil
+  | [it] => by simpa [sepBy] using withItem_bal it
+  | it :: it2 :: r => by
+    simp only [List.map, sepBy_cons2]
+    exact (withItem_bal it).append (Bal.append (Bal.op (o := .comma) rfl) (withItems_bal (it2 :: r)))
+
+theorem startsSpecial_rx {e : Expr} (he : GoodP P0 e) {c : Tok} (hcw : c ≠ .op .walrus) (hca : c ≠ .op .assign)
+    (R : List Tok) : startsSpecial (rx 1 e ++ c :: R) = false := by
+  obtain ⟨t, tr, ht, hg⟩ := goodP_head he 1 (Nat.le_refl _)
+  have hw := ((he.plain.nobind 1 (Nat.le_refl _)).append (he.plain.ne_nil 1 (Nat.le_refl _)) hcw hca R).walrus
+  rw [rx_eq] at ht ⊢
+  rw [ht] at hw ⊢
+  unfold startsSpecial
+  split
+  · rename_i heq; simp only [List.cons_append, List.cons.injEq] at heq; obtain ⟨rfl, _⟩ := heq; simp [goodHead] at hg
+  · rename_i heq; exact absurd heq (hw _ _)
+  · rfl
+
+/-- `("as" Expression)?` of an element between the parentheses -/
+def asPartOf (f : Nat) (r : List Tok) : Option (Option Expr × List Tok) :=
+  match r with
+  | t :: r' =>
+    if tk t = .hk .as then
+      (match parseBin 0 f r' with
+       | some (v, r2) => some (some v, r2)
+       | none => none)
+    else some (none, t :: r')
+  | [] => some (none, [])
+
+/-- after one element: `,` `)` / `,` more / `)` -/
+def elemsCont (f : Nat) (el : WElem) (r1 : List Tok) : PR (List WElem × Bool) :=
+  match r1 with
+  | .op .comma :: .op .rpar :: r2 => some (([el], true), r2)
+  | .op .comma :: r2 =>
+    (match parseWithParenElems f r2 with
+     | some ((els, tc), r3) => some ((el :: els, tc), r3)
+     | none => none)
+  | .op .rpar :: r2 => some (([el], false), r2)
+  | _ => none
+
+theorem parseWithParenElems_succ (f : Nat) (ts : List Tok) :
+    parseWithParenElems (f + 1) ts =
+      (match parseStarOrNamed f ts with
+       | none => none
+       | some (e, r) =>
+         match asPartOf f r with
+         | none => none
+         | some (v, r1) => elemsCont f (e, startsSpecial ts, v) r1) := by
+  rw [parseWithParenElems]
+  rfl
+
+/-- what may follow an element between the parentheses -/
+def elemNext (c : Tok) : Prop := c = .op .comma ∨ c = .op .rpar
+
+theorem elemNext.end {c : Tok} (h : elemNext c) : EndTok c := by
+  rcases h with rfl | rfl
+  · exact endTok_comma
+  · exact endTok_rpar
+
+/-- one element `Test ("as" Expression)?` and the token after it -/
+theorem withElemRT {it : WithItem} (hc : GoodP P0 it.contextExpr) (hv : GoodOpt P0 it.optionalVars) {c : Tok}
+    (hcn : elemNext c) (R : List Tok) :
+    ∃ n, ∀ f, n ≤ f → ∃ r, parseStarOrNamed f (renderWithItem it ++ c :: R) = some (it.contextExpr, r) ∧
+      atCompFor r = false ∧ startsSpecial (renderWithItem it ++ c :: R) = false ∧
+      asPartOf f r = some (it.optionalVars, c :: R) := by
+  have hcw : c ≠ .op .walrus := by rcases hcn with rfl | rfl <;> decide
+  have hca : c ≠ .op .assign := by rcases hcn with rfl | rfl <;> decide
+  have htk : tk c ≠ .hk .as := by rcases hcn with rfl | rfl <;> decide
+  have hcf : ∀ X, atCompFor (c :: X) = false := by rcases hcn with rfl | rfl <;> intro X <;> rfl
+  cases it with
+  | mk e v =>
+    cases v with
+    | none =>
+      obtain ⟨n, hn⟩ := evT_starOrNamed (.plain hc) hcn.end hcw hca R
+      refine ⟨n, fun f hf => ⟨c :: R, ?_, hcf _, ?_, ?_⟩⟩
+      · simpa [renderWithItem] using hn f hf
+      · simpa [renderWithItem] using startsSpecial_rx hc hcw hca R
+      · simp [asPartOf, htk]
+    | some v =>
+      have hv' : GoodP P0 v := hv
+      obtain ⟨n, hn⟩ := evT_starOrNamed (.plain hc) (endTok_hk .as) (by simp [HK.tok]) (by simp [HK.tok])
+        (rx 6 v ++ c :: R)
+      obtain ⟨m, hm⟩ := evT_bin0 hv' (hcn.end 6) R
+      refine ⟨max n m, fun f hf => ⟨HK.tok .as :: (rx 6 v ++ c :: R), ?_, rfl, ?_, ?_⟩⟩
+      · simpa [renderWithItem] using hn f (by omega)
+      · simpa [renderWithItem] using startsSpecial_rx hc (c := HK.tok .as) (by simp [HK.tok]) (by simp [HK.tok]) (rx 6 v ++ c :: R)
+      · have := hm f (by omega)
+        simp only [] at this
+        simp [asPartOf, tk_tok, this]
+
+theorem renderWithItem_head (it : WithItem) (hc : GoodP P0 it.contextExpr) (X : List Tok) :
+    ∃ t r, renderWithItem it ++ X = t :: r ∧ t ≠ .op .rpar ∧ t ≠ .kw .yield := by
+  obtain ⟨t, tr, ht, hg⟩ := goodP_head hc 1 (Nat.le_refl _)
+  refine ⟨t, _, by simp only [renderWithItem, ht, List.cons_append, List.append_assoc]; rfl, ?_, ?_⟩ <;>
+    (intro e; subst e; simp [goodHead] at hg)
+
+theorem withElemsRT : (items : List WithItem) → items ≠ [] → WithItemsOk items → ∀ rest,
+    EvT (fun f => parseWithParenElems f (sepBy tComma (items.map renderWithItem) ++ .op .rpar :: rest))
+      ((withEls items, false), rest)
+  | [], h, _, _ => absurd rfl h
+  | [it], _, hok, rest => by
+    obtain ⟨hc, hv⟩ := hok it (by simp)
+    obtain ⟨n, hn⟩ := withElemRT hc hv (c := .op .rpar) (Or.inr rfl) rest
+    refine ⟨n + 1, fun f hf => ?_⟩
+    obtain ⟨f1, rfl⟩ : ∃ f1, f = f1 + 1 := ⟨f - 1, by omega⟩
+    obtain ⟨r, h1, _, h3, h4⟩ := hn f1 (by omega)
+    simp only [List.map, sepBy_one]
+    rw [parseWithParenElems_succ, h1]
+    simp only [h4, h3, withEls, List.map, elemsCont]
+  | it :: it2 :: r, _, hok, rest => by
+    obtain ⟨hc, hv⟩ := hok it (by simp)
+    obtain ⟨n, hn⟩ := withElemRT hc hv (c := .op .comma) (Or.inl rfl)
+      (sepBy tComma ((it2 :: r).map renderWithItem) ++ .op .rpar :: rest)
+    obtain ⟨m, hm⟩ := withElemsRT (it2 :: r) (by simp) (fun x hx => hok x (List.mem_cons_of_mem _ hx)) rest
+    have hhead : ∃ t tr, sepBy tComma ((it2 :: r).map renderWithItem) ++ .op .rpar :: rest = t :: tr ∧ t ≠ .op .rpar := by
+      obtain ⟨hc2, _⟩ := hok it2 (by simp)
+      cases r with
+      | nil =>
+        obtain ⟨t, tr, h, h1, _⟩ := renderWithItem_head it2 hc2 (.op .rpar :: rest)
+        exact ⟨t, tr, by simpa [sepBy] using h, h1⟩
+      | cons it3 r' =>
+        obtain ⟨t, tr, h, h1, _⟩ := renderWithItem_head it2 hc2
+          (tComma :: (sepBy tComma ((it3 :: r').map renderWithItem) ++ .op .rpar :: rest))
+        exact ⟨t, tr, by simpa [sepBy_cons2] using h, h1⟩
+    obtain ⟨t, tr, htr, hne⟩ := hhead
+    refine ⟨max n m + 1, fun f hf => ?_⟩
+    obtain ⟨f1, rfl⟩ : ∃ f1, f = f1 + 1 := ⟨f - 1, by omega⟩
+    obtain ⟨r0, h1, _, h3, h4⟩ := hn f1 (by omega)
+    have h5 := hm f1 (by omega)
+    simp only [] at h5 ⊢
+    simp only [List.map, sepBy_cons2, List.append_assoc, List.cons_append, tComma] at h1 h3 h4 h5 htr ⊢
+    rw [parseWithParenElems_succ, h1]
+    simp only [h4, h3]
+    rw [htr] at h5 ⊢
+    rw [elemsCont.eq_2]
+    · simp only [h5, withEls, List.map]
+    · intro r2 hh; simp only [List.cons.injEq, true_and] at hh; exact hne hh.1
+
+theorem withEls_any_special (items : List WithItem) : (withEls items).any (fun el => el.2.1) = false := by
+  induction items with
+  | nil => rfl
+  | cons it r ih => simpa [withEls] using ih
+
+theorem withEls_all_plain (items : List WithItem) : (withEls items).all (fun el => !el.2.1) = true := by
+  induction items with
+  | nil => rfl
+  | cons it r ih => simpa [withEls] using ih
+
+theorem withEls_map_as (items : List WithItem) :
+    (withEls items).map (fun el => (⟨el.1, el.2.2⟩ : WithItem)) = items := by
+  induction items with
+  | nil => rfl
+  | cons it r ih => cases it; simpa [withEls] using ih
+
+theorem withEls_map_none (items : List WithItem) (h : (withEls items).any (fun el => el.2.2.isSome) = false) :
+    (withEls items).map (fun el => (⟨el.1, none⟩ : WithItem)) = items := by
+  induction items with
+  | nil => rfl
+  | cons it r ih =>
+    cases it with
+    | mk e v =>
+      simp only [withEls, List.map, List.any_cons, Bool.or_eq_false_iff] at h ⊢
+      cases v with
+      | some x => simp at h
+      | none =>
+        have := ih (by simpa [withEls] using h.2)
+        simp only [withEls] at this
+        rw [this]
+
+/-- the alternative of `WithItems` the printed form belongs to gives the items back -/
+theorem withParenItems_els (items : List WithItem) : withParenItems (withEls items) false = some items := by
+  unfold withParenItems
+  by_cases h : (withEls items).any (fun el => el.2.2.isSome) = true
+  · simp only [h, if_true, withEls_any_special, Bool.false_eq_true, if_false, withEls_map_as]
+  · simp only [Bool.not_eq_true] at h
+    simp only [h, Bool.false_eq_true, if_false, withEls_all_plain, if_true, withEls_map_none items h]
+
+/-- `with ( items ) :` — the header -/
+theorem withItemsRT {items : List WithItem} (hne : items ≠ []) (hok : WithItemsOk items) (rest : List Tok) :
+    EvT (fun f => parseWithItems f (renderWithItems items ++ .op .colon :: rest)) (items, .op .colon :: rest) := by
+  obtain ⟨n, hn⟩ := withElemsRT items hne hok (.op .colon :: rest)
+  cases items with
+  | nil => exact absurd rfl hne
+  | cons it r =>
+    obtain ⟨hc, hv⟩ := hok it (by simp)
+    have hhead : ∃ t tr c R, sepBy tComma ((it :: r).map renderWithItem) ++ .op .rpar :: .op .colon :: rest = t :: tr ∧
+        t ≠ .op .rpar ∧ t ≠ .kw .yield ∧
+        sepBy tComma ((it :: r).map renderWithItem) ++ .op .rpar :: .op .colon :: rest = renderWithItem it ++ c :: R ∧
+        elemNext c := by
+      cases r with
+      | nil =>
+        obtain ⟨t, tr, h, h1, h2⟩ := renderWithItem_head it hc (.op .rpar :: .op .colon :: rest)
+        exact ⟨t, tr, .op .rpar, .op .colon :: rest, by simpa [sepBy] using h, h1, h2, by simp [sepBy], Or.inr rfl⟩
+      | cons it2 r' =>
+        obtain ⟨t, tr, h, h1, h2⟩ := renderWithItem_head it hc
+          (tComma :: (sepBy tComma ((it2 :: r').map renderWithItem) ++ .op .rpar :: .op .colon :: rest))
+        exact ⟨t, tr, .op .comma, sepBy tComma ((it2 :: r').map renderWithItem) ++ .op .rpar :: .op .colon :: rest,
+          by simpa [sepBy_cons2] using h, h1, h2, by simp [sepBy_cons2, tComma], Or.inl rfl⟩
+    obtain ⟨t, tr, c, R, htr, hnr, hny, hform, hcn⟩ := hhead
+    obtain ⟨m, hm⟩ := withElemRT hc hv hcn R
+    refine ⟨max n m + 2, fun f hf => ?_⟩
+    obtain ⟨f1, rfl⟩ : ∃ f1, f = f1 + 2 := ⟨f - 2, by omega⟩
+    have h1 := hn f1 (by omega)
+    obtain ⟨r0, h2, h3, _, _⟩ := hm f1 (by omega)
+    simp only [] at h1 ⊢
+    simp only [renderWithItems, List.cons_append, List.append_assoc, List.nil_append]
+    rw [parseWithItems]
+    have hac : afterClose 1 (sepBy tComma ((it :: r).map renderWithItem) ++ .op .rpar :: .op .colon :: rest) =
+        some (.op .colon :: rest) := by
+      rw [withItems_bal (it :: r) 1 (Nat.le_refl _)]
+      simp [afterClose]
+    rw [hac]
+    simp only []
+    rw [← hform] at h2
+    rw [htr] at h1 h2 ⊢
+    rw [parseWithParen.eq_4]
+    · simp only [h2, h3, Bool.false_eq_true, if_false, h1, withParenItems_els]
+    · intro r' hh; simp only [List.cons.injEq] at hh; exact hnr hh.1
+    · intro r' hh; simp only [List.cons.injEq] at hh; exact hny hh.1
+
+theorem parseWith_rt {a : Bool} {items : List WithItem} {b : List Stmt} (hne : items ≠ []) (hok : WithItemsOk items)
+    (hbne : b ≠ []) (hb : BlockRT b) (rest : List Tok) :
+    EvT (fun f => parseWith f a (renderWithItems items ++ suiteToks (renderBlock b) ++ rest))
+      (if a then .asyncWith items b else .with items b, rest) := by
+  obtain ⟨n1, hn1⟩ := withItemsRT hne hok (tNewline :: tIndent :: (renderBlock b ++ tDedent :: rest))
+  obtain ⟨n2, hn2⟩ := suiteRT hb hbne rest
+  refine ⟨max n1 n2 + 1, fun f hf => ?_⟩
+  obtain ⟨f1, rfl⟩ : ∃ f1, f = f1 + 1 := ⟨f - 1, by omega⟩
+  have h1 := hn1 f1 (by omega)
+  have h2 := hn2 f1 (by omega)
+  simp only [] at h1 h2 ⊢
+  simp only [List.append_assoc, suiteToks_append, tColon]
+  rw [parseWith, h1]
+  simp only [h2]
+  cases a <;> rfl
+
+theorem stmtRT_with {items : List WithItem} {b : List Stmt} (hne : items ≠ []) (hok : WithItemsOk items)
+    (hbne : b ≠ []) (hb : BlockRT b) : StmtRT (.with items b) := by
+  intro rest _
+  refine first_of_compound (by simp only [renderStmt, withToks, asyncToks, Bool.false_eq_true, if_false,
+    List.nil_append, List.cons_append]; exact startsCompound_hk_true (by simp) _) ?_
+  obtain ⟨n, hn⟩ := parseWith_rt (a := false) hne hok hbne hb rest
+  refine ⟨n + 1, fun f hf => ?_⟩
+  obtain ⟨f1, rfl⟩ : ∃ f1, f = f1 + 1 := ⟨f - 1, by omega⟩
+  have h1 := hn f1 (by omega)
+  simp only [] at h1 ⊢
+  simp only [renderStmt, withToks, asyncToks, Bool.false_eq_true, if_false, List.nil_append, List.cons_append,
+    List.append_assoc] at h1 ⊢
+  rw [parseCompound_with]
+  simpa using h1
+
+theorem stmtRT_asyncWith {items : List WithItem} {b : List Stmt} (hne : items ≠ []) (hok : WithItemsOk items)
+    (hbne : b ≠ []) (hb : BlockRT b) : StmtRT (.asyncWith items b) := by
+  intro rest _
+  refine first_of_compound (by simp [renderStmt, withToks, asyncToks, startsCompound]) ?_
+  obtain ⟨n, hn⟩ := parseWith_rt (a := true) hne hok hbne hb rest
+  refine ⟨n + 1, fun f hf => ?_⟩
+  obtain ⟨f1, rfl⟩ : ∃ f1, f = f1 + 1 := ⟨f - 1, by omega⟩
+  have h1 := hn f1 (by omega)
+  simp only [] at h1 ⊢
+  simp only [renderStmt, withToks, asyncToks, if_true, List.cons_append, List.nil_append, List.append_assoc] at h1 ⊢
+  rw [parseCompound.eq_6]
+  · simp only [tk_tok]
+    simpa using h1
+  · intro hh; simp [HK.tok] at hh
+
+/-! ## decorators, def, class -/
+
+theorem decoratorsRT : (ds : List Expr) → (∀ d ∈ ds, GoodP P0 d) → ∀ X, (∀ r, X ≠ .op .at :: r) →
+    EvT (fun f => parseDecorators f (renderDecorators ds ++ X)) (ds, X)
+  | [], _, X, hX => ⟨1, fun f hf => by
+      obtain ⟨f1, rfl⟩ : ∃ f1, f = f1 + 1 := ⟨f - 1, by omega⟩
+      simp only [renderDecorators, List.nil_append]
+      rw [parseDecorators.eq_3]
+      intro r hh; exact hX r hh⟩
+  | d :: ds, hd, X, hX => by
+    obtain ⟨n, hn⟩ := evT_namedTest (hd d (by simp)) endTok_newline (by decide) (by decide) (renderDecorators ds ++ X)
+    obtain ⟨m, hm⟩ := decoratorsRT ds (fun x hx => hd x (List.mem_cons_of_mem _ hx)) X hX
+    refine ⟨max n m + 1, fun f hf => ?_⟩
+    obtain ⟨f1, rfl⟩ : ∃ f1, f = f1 + 1 := ⟨f - 1, by omega⟩
+    have h1 := hn f1 (by omega)
+    have h2 := hm f1 (by omega)
+    simp only [] at h1 h2 ⊢
+    simp only [renderDecorators, List.cons_append, List.append_assoc]
+    rw [parseDecorators, h1]
+    simp only [tk_tNewline, if_true, h2]
+
+theorem tk_tArrow : tk tArrow = .arrow := by decide
+
+/-- `("->" Test)?` in front of the `:` -/
+def retOf (f : Nat) (r2 : List Tok) : PR (Option Expr) :=
+  match r2 with
+  | t :: r3 =>
+    if tk t = .arrow then
+      (match parseTest f r3 with
+       | some (e, r4) => some (some e, r4)
+       | none => none)
+    else some (none, t :: r3)
+  | [] => some (none, [])
+
+theorem parseDef_succ (f : Nat) (a : Bool) (decos : List Expr) (n : Ident) (r : List Tok) :
+    parseDef (f + 1) a decos (.name n :: r) =
+      (match parseTypeParamsOpt f r with
+       | some (tps, .op .lpar :: r1) =>
+         (match parseParameters f r1 with
+          | some (args, r2) =>
+            (match retOf f r2 with
+             | some (returns, .op .colon :: r5) =>
+               (match parseSuite f r5 with
+                | some (body, r6) =>
+                  if a then some (.asyncFunctionDef n args body decos returns tps, r6)
+                  else some (.functionDef n args body decos returns tps, r6)
+                | none => none)
+             | _ => none)
+          | none => none)
+       | _ => none) := by
+  rw [parseDef]
+  rfl
+
+def retToks : Option Expr → List Tok
+  | some r => tArrow :: rx 1 r
+  | none => []
+
+theorem retRT (returns : Option Expr) (h : GoodOpt P0 returns) (R : List Tok) :
+    EvT (fun f => retOf f (retToks returns ++ .op .colon :: R)) (returns, .op .colon :: R) := by
+  cases returns with
+  | none => exact ⟨0, fun f _ => by simp [retToks, retOf, tk]⟩
+  | some e =>
+    have he : GoodP P0 e := h
+    obtain ⟨n, hn⟩ := evT_test he endTok_colon R
+    refine ⟨n, fun f hf => ?_⟩
+    have h1 := hn f hf
+    simp only [] at h1 ⊢
+    simp only [retToks, List.cons_append, retOf, tk_tArrow, if_true, h1]
+
+theorem defToks_eq (a : Bool) (n : Ident) (args : Arguments) (body : List Tok) (decos : List Expr)
+    (returns : Option Expr) (tps : List TypeParam) (rest : List Tok) :
+    defToks a n args body decos returns tps ++ rest =
+      renderDecorators decos ++ (asyncToks a ++ HK.tok .def :: .name n :: (renderTypeParams tps ++ .op .lpar ::
+        (sepBy tComma (paramItems args) ++ .op .rpar :: (retToks returns ++ .op .colon :: tNewline :: tIndent ::
+          (body ++ tDedent :: rest))))) := by
+  cases returns <;>
+    simp [defToks, renderParameters, retToks, suiteToks_append, tColon, List.append_assoc]
+
+theorem parseDef_rt {a : Bool} {n : Ident} {args : Arguments} {b : List Stmt} {returns : Option Expr}
+    {tps : List TypeParam} (decos : List Expr) (hargs : fxArguments args = true) (hret : GoodOpt P0 returns)
+    (htps : fxTParams tps = true) (hbne : b ≠ []) (hb : BlockRT b) (rest : List Tok) :
+    EvT (fun f => parseDef f a decos (.name n :: (renderTypeParams tps ++ .op .lpar ::
+        (sepBy tComma (paramItems args) ++ .op .rpar :: (retToks returns ++ .op .colon :: tNewline :: tIndent ::
+          (renderBlock b ++ tDedent :: rest))))))
+      (if a then .asyncFunctionDef n args b decos returns tps else .functionDef n args b decos returns tps, rest) := by
+  obtain ⟨n1, hn1⟩ := typeParamsOptRT tps htps (c := .op .lpar) (by decide)
+    (sepBy tComma (paramItems args) ++ .op .rpar :: (retToks returns ++ .op .colon :: tNewline :: tIndent ::
+      (renderBlock b ++ tDedent :: rest)))
+  obtain ⟨n2, hn2⟩ := rt_parameters args hargs
+    (retToks returns ++ .op .colon :: tNewline :: tIndent :: (renderBlock b ++ tDedent :: rest))
+  obtain ⟨n3, hn3⟩ := retRT returns hret (tNewline :: tIndent :: (renderBlock b ++ tDedent :: rest))
+  obtain ⟨n4, hn4⟩ := suiteRT hb hbne rest
+  refine ⟨max (max n1 n2) (max n3 n4) + 1, fun f hf => ?_⟩
+  obtain ⟨f1, rfl⟩ : ∃ f1, f = f1 + 1 := ⟨f - 1, by omega⟩
+  have h1 := hn1 f1 (by omega)
+  have h2 := hn2 f1 (by omega)
+  have h3 := hn3 f1 (by omega)
+  have h4 := hn4 f1 (by omega)
+  simp only [] at h1 h2 h3 h4 ⊢
+  rw [parseDef_succ]
+  simp only [h1, h2, h3, h4]
+  cases a <;> rfl
+
+theorem stmtRT_def (a : Bool) {n : Ident} {args : Arguments} {b : List Stmt} {decos : List Expr} {returns : Option Expr}
+    {tps : List TypeParam} (hargs : fxArguments args = true) (hdec : ∀ d ∈ decos, GoodP P0 d)
+    (hret : GoodOpt P0 returns) (htps : fxTParams tps = true) (hbne : b ≠ []) (hb : BlockRT b) (s : Stmt)
+    (hs : s = if a then .asyncFunctionDef n args b decos returns tps else .functionDef n args b decos returns tps)
+    (hr : renderStmt s = defToks a n args (renderBlock b) decos returns tps) : StmtRT s := by
+  intro rest _
+  rw [hr, defToks_eq]
+  obtain ⟨n1, hn1⟩ := parseDef_rt (a := a) (n := n) decos hargs hret htps hbne hb rest
+  cases decos with
+  | nil =>
+    simp only [renderDecorators, List.nil_append]
+    cases a with
+    | false =>
+      refine first_of_compound (by simp only [asyncToks, Bool.false_eq_true, if_false, List.nil_append];
+                                   exact startsCompound_hk_true (by simp) _) ?_
+      refine ⟨n1 + 1, fun f hf => ?_⟩
+      obtain ⟨f1, rfl⟩ : ∃ f1, f = f1 + 1 := ⟨f - 1, by omega⟩
+      have h1 := hn1 f1 (by omega)
+      simp only [] at h1 ⊢
+      simp only [asyncToks, Bool.false_eq_true, if_false, List.nil_append]
+      rw [parseCompound_def, h1, hs]
+    | true =>
+      refine first_of_compound (by simp [asyncToks, startsCompound]) ?_
+      refine ⟨n1 + 1, fun f hf => ?_⟩
+      obtain ⟨f1, rfl⟩ : ∃ f1, f = f1 + 1 := ⟨f - 1, by omega⟩
+      have h1 := hn1 f1 (by omega)
+      simp only [] at h1 ⊢
+      simp only [asyncToks, if_true, List.cons_append, List.nil_append]
+      rw [parseCompound.eq_6]
+      · simp only [tk_tok, h1, hs]
+      · intro hh; simp [HK.tok] at hh
+  | cons d ds =>
+    obtain ⟨n2, hn2⟩ := decoratorsRT (d :: ds) hdec
+      (asyncToks a ++ HK.tok .def :: .name n :: (renderTypeParams tps ++ .op .lpar ::
+        (sepBy tComma (paramItems args) ++ .op .rpar :: (retToks returns ++ .op .colon :: tNewline :: tIndent ::
+          (renderBlock b ++ tDedent :: rest)))))
+      (by intro r hh; cases a <;> simp [asyncToks, HK.tok] at hh)
+    refine first_of_compound (by simp [renderDecorators, startsCompound]) ?_
+    refine ⟨max n1 n2 + 1, fun f hf => ?_⟩
+    obtain ⟨f1, rfl⟩ : ∃ f1, f = f1 + 1 := ⟨f - 1, by omega⟩
+    have h1 := hn1 f1 (by omega)
+    have h2 := hn2 f1 (by omega)
+    simp only [] at h1 h2 ⊢
+    simp only [renderDecorators, List.cons_append, List.append_assoc] at h2 ⊢
+    rw [parseCompound, h2]
+    cases a with
+    | false =>
+      simp only [asyncToks, Bool.false_eq_true, if_false, List.nil_append] at h1 ⊢
+      simp only [HK.tok] at h1 ⊢
+      have := tk_tok .def
+      simp only [HK.tok] at this
+      simp only [this, h1, hs]
+      rfl
+    | true =>
+      simp only [asyncToks, if_true, List.cons_append, List.nil_append] at h1 ⊢
+      simp only [tk_tok, if_true, h1, hs]
+
+/-- `("(" ArgumentList ")")?` of a class definition -/
+def classArgsOf (f : Nat) (r1 : List Tok) : PR (List Expr × List Keyword) :=
+  match r1 with
+  | .op .lpar :: r2 => parseArgs f r2 [] [] false
+  | _ => some (([], []), r1)
+
+theorem parseClass_succ (f : Nat) (decos : List Expr) (n : Ident) (r : List Tok) :
+    parseClass (f + 1) decos (.name n :: r) =
+      (match parseTypeParamsOpt f r with
+       | some (tps, r1) =>
+         (match classArgsOf f r1 with
+          | some ((bases, kws), .op .colon :: r3) =>
+            (match parseSuite f r3 with
+             | some (body, r4) => some (.classDef n bases kws body decos tps, r4)
+             | none => none)
+          | _ => none)
+       | none => none) := by
+  rw [parseClass]
+  rfl
+
+theorem classArgsRT {bases : List Expr} {kws : List Keyword} (hb : ∀ x ∈ bases, ElemOK P0 x) (hk : GoodKws P0 kws)
+    (hfr : kwFresh [] kws = true) (R : List Tok) :
+    EvT (fun f => classArgsOf f (renderClassArgs bases kws ++ .op .colon :: R)) ((bases, kws), .op .colon :: R) := by
+  by_cases he : (bases.isEmpty && kws.isEmpty) = true
+  · simp only [Bool.and_eq_true, List.isEmpty_iff] at he
+    obtain ⟨rfl, rfl⟩ := he
+    exact ⟨0, fun f _ => by simp [renderClassArgs, classArgsOf]⟩
+  · obtain ⟨n, hn⟩ := callArgsRT P0 bases kws hb hk hfr (.op .colon :: R)
+    refine ⟨n, fun f hf => ?_⟩
+    have h1 := hn f hf
+    simp only [renderClassArgs, he, Bool.false_eq_true, if_false, List.cons_append, List.append_assoc, renderCallArgs,
+      classArgsOf, List.nil_append]
+    exact h1
+
+theorem parseClass_rt {n : Ident} {bases : List Expr} {kws : List Keyword} {b : List Stmt} {tps : List TypeParam}
+    (decos : List Expr) (hbs : ∀ x ∈ bases, ElemOK P0 x) (hk : GoodKws P0 kws) (hfr : kwFresh [] kws = true)
+    (htps : fxTParams tps = true) (hbne : b ≠ []) (hb : BlockRT b) (rest : List Tok) :
+    EvT (fun f => parseClass f decos (.name n :: (renderTypeParams tps ++ (renderClassArgs bases kws ++
+        suiteToks (renderBlock b))) ++ rest)) (.classDef n bases kws b decos tps, rest) := by
+  have hc : ∃ c X, renderClassArgs bases kws ++ .op .colon :: tNewline :: tIndent :: (renderBlock b ++ tDedent :: rest) = c :: X ∧
+      c ≠ .op .lsqb := by
+    by_cases he : (bases.isEmpty && kws.isEmpty) = true
+    · exact ⟨.op .colon, tNewline :: tIndent :: (renderBlock b ++ tDedent :: rest), by simp [renderClassArgs, he], by decide⟩
+    · exact ⟨.op .lpar, renderCallArgs bases kws ++ .op .rpar :: .op .colon :: tNewline :: tIndent ::
+        (renderBlock b ++ tDedent :: rest), by simp [renderClassArgs, he], by decide⟩
+  obtain ⟨c, X, hcX, hcl⟩ := hc
+  obtain ⟨n1, hn1⟩ := typeParamsOptRT tps htps hcl X
+  obtain ⟨n2, hn2⟩ := classArgsRT hbs hk hfr (tNewline :: tIndent :: (renderBlock b ++ tDedent :: rest))
+  obtain ⟨n3, hn3⟩ := suiteRT hb hbne rest
+  refine ⟨max n1 (max n2 n3) + 1, fun f hf => ?_⟩
+  obtain ⟨f1, rfl⟩ : ∃ f1, f = f1 + 1 := ⟨f - 1, by omega⟩
+  have h1 := hn1 f1 (by omega)
+  have h2 := hn2 f1 (by omega)
+  have h3 := hn3 f1 (by omega)
+  simp only [] at h1 h2 h3 ⊢
+  simp only [List.cons_append, List.append_assoc, suiteToks_append, tColon]
+  rw [parseClass_succ, hcX, h1, ← hcX]
+  simp only [h2, h3]
+
+theorem stmtRT_class {n : Ident} {bases : List Expr} {kws : List Keyword} {b : List Stmt} {decos : List Expr}
+    {tps : List TypeParam} (hbs : ∀ x ∈ bases, ElemOK P0 x) (hk : GoodKws P0 kws) (hfr : kwFresh [] kws = true)
+    (hdec : ∀ d ∈ decos, GoodP P0 d) (htps : fxTParams tps = true) (hbne : b ≠ []) (hb : BlockRT b) :
+    StmtRT (.classDef n bases kws b decos tps) := by
+  intro rest _
+  obtain ⟨n1, hn1⟩ := parseClass_rt (n := n) decos hbs hk hfr htps hbne hb rest
+  simp only [renderStmt, List.append_assoc, List.cons_append]
+  cases decos with
+  | nil =>
+    simp only [renderDecorators, List.nil_append]
+    refine first_of_compound (startsCompound_hk_true (by simp) _) ?_
+    refine ⟨n1 + 1, fun f hf => ?_⟩
+    obtain ⟨f1, rfl⟩ : ∃ f1, f = f1 + 1 := ⟨f - 1, by omega⟩
+    have h1 := hn1 f1 (by omega)
+    simp only [List.cons_append, List.append_assoc] at h1 ⊢
+    rw [parseCompound_class, h1]
+  | cons d ds =>
+    obtain ⟨n2, hn2⟩ := decoratorsRT (d :: ds) hdec
+      (HK.tok .class :: .name n :: (renderTypeParams tps ++ (renderClassArgs bases kws ++
+        (suiteToks (renderBlock b) ++ rest))))
+      (by intro r hh; simp [HK.tok] at hh)
+    refine first_of_compound (by simp [renderDecorators, startsCompound]) ?_
+    refine ⟨max n1 n2 + 1, fun f hf => ?_⟩
+    obtain ⟨f1, rfl⟩ : ∃ f1, f = f1 + 1 := ⟨f - 1, by omega⟩
+    have h1 := hn1 f1 (by omega)
+    have h2 := hn2 f1 (by omega)
+    simp only [] at h1 h2 ⊢
+    simp only [renderDecorators, List.cons_append, List.append_assoc] at h1 h2 ⊢
+    rw [parseCompound, h2]
+    simp only [HK.tok] at h1 ⊢
+    have := tk_tok .class
+    simp only [HK.tok] at this
+    simp only [this, h1]
+
+/-! ## match -/
+
+/-- every case: pattern of the fragment, guard, non-empty body whose block round trips -/
+def CasesOk (cs : List MatchCase) : Prop :=
+  ∀ p g b, MatchCase.mk p g b ∈ cs → inFragPat p = true ∧ GoodOpt P0 g ∧ b ≠ [] ∧ BlockRT b
+
+/-- `("if" NamedExpressionTest)?` in front of the `:` -/
+def guardOf (f : Nat) (r1 : List Tok) : PR (Option Expr) :=
+  match r1 with
+  | .kw .if :: r2 =>
+    (match parseNamedTest f r2 with
+     | some (g, r3) => some (some g, r3)
+     | none => none)
+  | _ => some (none, r1)
+
+theorem parseCases_succ (f : Nat) (t : Tok) (r : List Tok) (ht : tk t = .hk .case) :
+    parseCases (f + 1) (t :: r) =
+      (match parsePatterns f r with
+       | some (p, r1) =>
+         (match guardOf f r1 with
+          | some (g, .op .colon :: r4) =>
+            (match parseSuite f r4 with
+             | some (body, t5 :: r5) =>
+               if tk t5 = .dedent then some ([.mk p g body], r5)
+               else
+                 (match parseCases f (t5 :: r5) with
+                  | some (cs, r6) => some (.mk p g body :: cs, r6)
+                  | none => none)
+             | _ => none)
+          | _ => none)
+       | none => none) := by
+  rw [parseCases]
+  simp only [ht, if_true]
+  rfl
+
+theorem guardRT (g : Option Expr) (hg : GoodOpt P0 g) (R : List Tok) :
+    EvT (fun f => guardOf f (guardToks g ++ .op .colon :: R)) (g, .op .colon :: R) := by
+  cases g with
+  | none => exact ⟨0, fun f _ => by simp [guardToks, guardOf]⟩
+  | some e =>
+    have he : GoodP P0 e := hg
+    obtain ⟨n, hn⟩ := evT_namedTest he endTok_colon (by decide) (by decide) R
+    refine ⟨n, fun f hf => ?_⟩
+    have h1 := hn f hf
+    simp only [] at h1 ⊢
+    simp only [guardToks, List.cons_append, guardOf, h1]
+
+theorem casesRT : (cs : List MatchCase) → cs ≠ [] → CasesOk cs → ∀ rest,
+    EvT (fun f => parseCases f (renderCases cs ++ tDedent :: rest)) (cs, rest)
+  | [], h, _, _ => absurd rfl h
+  | .mk p g b :: cs, _, hok, rest => by
+    obtain ⟨hp, hg, hbne, hb⟩ := hok p g b (by simp)
+    have hc : ∃ c X, guardToks g ++ .op .colon :: tNewline :: tIndent ::
+        (renderBlock b ++ tDedent :: (renderCases cs ++ tDedent :: rest)) = c :: X ∧ (c = .op .colon ∨ c = .kw .if) := by
+      cases g with
+      | none => exact ⟨_, _, rfl, Or.inl rfl⟩
+      | some e => exact ⟨_, _, rfl, Or.inr rfl⟩
+    obtain ⟨c, X, hcX, hcc⟩ := hc
+    obtain ⟨n1, hn1⟩ := rt_patterns p hp c hcc X
+    obtain ⟨n2, hn2⟩ := guardRT g hg (tNewline :: tIndent :: (renderBlock b ++ tDedent :: (renderCases cs ++ tDedent :: rest)))
+    obtain ⟨n3, hn3⟩ := suiteRT hb hbne (renderCases cs ++ tDedent :: rest)
+    cases cs with
+    | nil =>
+      refine ⟨max n1 (max n2 n3) + 1, fun f hf => ?_⟩
+      obtain ⟨f1, rfl⟩ : ∃ f1, f = f1 + 1 := ⟨f - 1, by omega⟩
+      have h1 := hn1 f1 (by omega)
+      have h2 := hn2 f1 (by omega)
+      have h3 := hn3 f1 (by omega)
+      simp only [] at h1 h2 h3 ⊢
+      simp only [renderCases, List.cons_append, List.append_assoc, suiteToks_append, tColon, List.nil_append] at h2 h3 hcX ⊢
+      rw [parseCases_succ _ _ _ (tk_tok .case), hcX, h1, ← hcX]
+      simp only [h2, h3, tk_tDedent, if_true]
+    | cons c2 cs' =>
+      obtain ⟨n4, hn4⟩ := casesRT (c2 :: cs') (by simp) (fun p' g' b' hm => hok p' g' b' (List.mem_cons_of_mem _ hm)) rest
+      have hhead : ∃ Y, renderCases (c2 :: cs') ++ tDedent :: rest = HK.tok .case :: Y := by
+        cases c2; exact ⟨_, by simp only [renderCases, List.cons_append]; rfl⟩
+      obtain ⟨Y, hY⟩ := hhead
+      refine ⟨max (max n1 n2) (max n3 n4) + 1, fun f hf => ?_⟩
+      obtain ⟨f1, rfl⟩ : ∃ f1, f = f1 + 1 := ⟨f - 1, by omega⟩
+      have h1 := hn1 f1 (by omega)
+      have h2 := hn2 f1 (by omega)
+      have h3 := hn3 f1 (by omega)
+      have h4 := hn4 f1 (by omega)
+      simp only [] at h1 h2 h3 h4 ⊢
+      have hform : renderCases (.mk p g b :: c2 :: cs') ++ tDedent :: rest =
+          HK.tok .case :: (renderPat p 0 ++ (guardToks g ++ .op .colon :: tNewline :: tIndent ::
+            (renderBlock b ++ tDedent :: (renderCases (c2 :: cs') ++ tDedent :: rest)))) := by
+        simp [renderCases, suiteToks_append, tColon]
+      rw [hform, parseCases_succ _ _ _ (tk_tok .case), hcX, h1, ← hcX]
+      simp only [h2, h3]
+      rw [hY] at h4 ⊢
+      simp only [tk_tok, h4]
+      simp
+
+theorem stmtRT_match {subj : Expr} {cs : List MatchCase} (hs : ElemOK P0 subj) (hne : cs ≠ []) (hok : CasesOk cs) :
+    StmtRT (.match subj cs) := by
+  intro rest _
+  refine first_of_compound (by simp only [renderStmt, List.cons_append]; exact startsCompound_hk_true (by simp) _) ?_
+  obtain ⟨n1, hn1⟩ := evT_subject1 hs endTok_colon (by decide) (by decide) (by decide)
+    (tNewline :: tIndent :: (renderCases cs ++ tDedent :: rest))
+  obtain ⟨n2, hn2⟩ := casesRT cs hne hok rest
+  refine ⟨max n1 n2 + 1, fun f hf => ?_⟩
+  obtain ⟨f1, rfl⟩ : ∃ f1, f = f1 + 1 := ⟨f - 1, by omega⟩
+  have h1 := hn1 f1 (by omega)
+  have h2 := hn2 f1 (by omega)
+  simp only [] at h1 h2 ⊢
+  simp only [renderStmt, renderExpr_eq, List.cons_append, List.append_assoc, tColon, List.nil_append]
+  rw [parseCompound_match, h1]
+  simp only [tk_tNewline, tk_tIndent, and_self, if_true, h2, genericList]
+
+/-! ## first tokens of rendered statements -/
+
+theorem stmtHeadOk_kw {k : Kw} (hk : k = .if ∨ k = .for ∨ k = .async ∨ k = .from) : StmtHeadOk (.kw k) := by
+  rcases hk with rfl | rfl | rfl | rfl <;> exact ⟨by simp, by decide, by decide, by decide, by decide, by decide⟩
+
+theorem stmtHeadOk_at : StmtHeadOk (.op .at) := ⟨by simp, by decide, by decide, by decide, by decide, by decide⟩
+theorem stmtHeadOk_lpar : StmtHeadOk (.op .lpar) := ⟨by simp, by decide, by decide, by decide, by decide, by decide⟩
+
+theorem stmtHeadOk_elem {x : Expr} (hx : ElemOK P0 x) (X : List Tok) :
+    ∃ t r, rx 1 x ++ X = t :: r ∧ StmtHeadOk t := by
+  obtain ⟨t, tr, ht, hg⟩ := elemOK_head hx 1 (Nat.le_refl _)
+  obtain ⟨_, _, _, htk, _, _, _⟩ := elem_dispatch hx 1 (Nat.le_refl _)
+  have hs := stmtHead_of_elemTok hg
+  refine ⟨t, tr ++ X, by rw [ht]; rfl, stmtHeadOk_of_plain (dispatch_of_not_stmtHead hs []).1 ?_⟩
+  rcases hg with hg | rfl
+  · intro e; subst e; simp [goodHead] at hg
+  · simp
+
+theorem renderDecorators_head (d : Expr) (ds : List Expr) (X : List Tok) :
+    ∃ r, renderDecorators (d :: ds) ++ X = .op .at :: r := ⟨_, rfl⟩
+
+theorem defToks_head (a : Bool) (n : Ident) (args : Arguments) (body : List Tok) (decos : List Expr)
+    (returns : Option Expr) (tps : List TypeParam) :
+    ∃ t r, defToks a n args body decos returns tps = t :: r ∧ StmtHeadOk t := by
+  cases decos with
+  | cons d ds => exact ⟨.op .at, _, rfl, stmtHeadOk_at⟩
+  | nil =>
+    cases a with
+    | false => exact ⟨HK.tok .def, _, rfl, stmtHeadOk_tok (by decide)⟩
+    | true => exact ⟨.kw .async, _, rfl, stmtHeadOk_kw (by simp)⟩
+
+theorem renderStmt_head : (s : Stmt) → inFragS s = true → ∃ t r, renderStmt s = t :: r ∧ StmtHeadOk t
+  | .pass, _ => ⟨_, _, rfl, stmtHeadOk_tok (by decide)⟩
+  | .break, _ => ⟨_, _, rfl, stmtHeadOk_tok (by decide)⟩
+  | .continue, _ => ⟨_, _, rfl, stmtHeadOk_tok (by decide)⟩
+  | .return none, _ => ⟨_, _, rfl, stmtHeadOk_tok (by decide)⟩
+  | .return (some _), _ => ⟨_, _, rfl, stmtHeadOk_tok (by decide)⟩
+  | .delete _, _ => ⟨_, _, rfl, stmtHeadOk_tok (by decide)⟩
+  | .assert _ _, _ => ⟨_, _, rfl, stmtHeadOk_tok (by decide)⟩
+  | .raise none _, _ => ⟨_, _, rfl, stmtHeadOk_tok (by decide)⟩
+  | .raise (some _) _, _ => ⟨_, _, rfl, stmtHeadOk_tok (by decide)⟩
+  | .global _, _ => ⟨_, _, rfl, stmtHeadOk_tok (by decide)⟩
+  | .nonlocal _, _ => ⟨_, _, rfl, stmtHeadOk_tok (by decide)⟩
+  | .import _, _ => ⟨_, _, rfl, stmtHeadOk_tok (by decide)⟩
+  | .importFrom _ _ _, _ => ⟨_, _, rfl, stmtHeadOk_kw (by simp)⟩
+  | .typeAlias _ _ _, _ => ⟨_, _, rfl, stmtHeadOk_tok (by decide)⟩
+  | .if _ _ _, _ => ⟨_, _, rfl, stmtHeadOk_kw (by simp)⟩
+  | .while _ _ _, _ => ⟨_, _, rfl, stmtHeadOk_tok (by decide)⟩
+  | .for _ _ _ _, _ => ⟨_, _, rfl, stmtHeadOk_kw (by simp)⟩
+  | .asyncFor _ _ _ _, _ => ⟨_, _, rfl, stmtHeadOk_kw (by simp)⟩
+  | .try _ _ _ _, _ => ⟨_, _, rfl, stmtHeadOk_tok (by decide)⟩
+  | .tryStar _ _ _ _, _ => ⟨_, _, rfl, stmtHeadOk_tok (by decide)⟩
+  | .with _ _, _ => ⟨_, _, rfl, stmtHeadOk_tok (by decide)⟩
+  | .asyncWith _ _, _ => ⟨_, _, rfl, stmtHeadOk_kw (by simp)⟩
+  | .match _ _, _ => ⟨_, _, rfl, stmtHeadOk_tok (by decide)⟩
+  | .functionDef n a b d r tp, _ => defToks_head false n a _ d r tp
+  | .asyncFunctionDef n a b d r tp, _ => defToks_head true n a _ d r tp
+  | .classDef n bases kws b d tp, _ => by
+    cases d with
+    | cons d ds => exact ⟨.op .at, _, rfl, stmtHeadOk_at⟩
+    | nil => exact ⟨HK.tok .class, _, rfl, stmtHeadOk_tok (by decide)⟩
   | .expr e, h => by
-    have h' : inFrag e = true := by simpa [inFragS] using h
-    obtain ⟨t, r, hr, hg⟩ := renderExpr_head e h'
-    exact ⟨t, r ++ [tNewline], by simp [renderStmt, hr], headOk_of_goodHead hg⟩
-  | .functionDef .., h | .asyncFunctionDef .., h | .classDef .., h | .delete .., h | .assign .., h
-  | .typeAlias .., h | .augAssign .., h | .annAssign .., h | .for .., h | .asyncFor .., h | .with .., h
-  | .asyncWith .., h | .match .., h | .raise .., h | .try .., h | .tryStar .., h | .assert .., h
-  | .import .., h | .importFrom .., h | .global .., h | .nonlocal .., h => by simp [inFragS] at h
+    have h' : fx .elem e = true := by simpa [inFragS] using h
+    simpa [renderStmt, renderExpr_eq] using stmtHeadOk_elem (elemOK_of_fx h') [tNewline]
+  | .assign ts v, h => by
+    simp only [inFragS, Bool.and_eq_true, Bool.not_eq_true', List.isEmpty_eq_false_iff] at h
+    cases ts with
+    | nil => exact absurd rfl h.1.1
+    | cons t ts' =>
+      have ht : fx .elem t = true := by
+        have := h.1.2; simp only [fxList, Bool.and_eq_true] at this; exact this.1
+      simpa [renderStmt, assignTargets] using
+        stmtHeadOk_elem (elemOK_of_fx ht) (tAssign :: (assignTargets ts' ++ (rx 1 v ++ [tNewline])))
+  | .augAssign t o v, h => by
+    simp only [inFragS, Bool.and_eq_true] at h
+    simpa [renderStmt] using stmtHeadOk_elem (elemOK_of_fx h.1) (tAug o :: (rx 1 v ++ [tNewline]))
+  | .annAssign t a v s, h => by
+    simp only [inFragS, Bool.and_eq_true] at h
+    by_cases hp : (isName t && !s) = true
+    · exact ⟨.op .lpar, _, by rw [renderStmt, annTargetToks, if_pos hp]; rfl, stmtHeadOk_lpar⟩
+    · have := stmtHeadOk_elem (.plain (goodP_of_fx h.1.1.1)) (tColon :: (rx 1 a ++ (optAssign v ++ [tNewline])))
+      simpa [renderStmt, annTargetToks, hp] using this
 
-theorem elseFree_of_headOk {t : Tok} {r : List Tok} (h : HeadOk t) : ElseFree (t :: r) := ⟨h.1, h.2.1, h.2.2.1⟩
-
-theorem elseFree_dedent (r : List Tok) : ElseFree (tDedent :: r) :=
-  ⟨by simp [tDedent], by rw [tk_tDedent]; simp, by rw [tk_tDedent]; simp⟩
-
-/-- one rendered statement is read back by `parseFirst` -/
-def StmtRT (s : Stmt) : Prop :=
-  ∀ rest, ElseFree rest → EvT (fun f => parseFirst f (renderStmt s ++ rest)) ([s], rest)
-
-/-- a rendered non-empty block followed by DEDENT is read back by `parseBlock` -/
-def BlockRT (ss : List Stmt) : Prop :=
-  ss ≠ [] → ∀ rest, EvT (fun f => parseBlock f (renderBlock ss ++ tDedent :: rest)) (ss, rest)
+/-! ## blocks -/
 
 theorem blockRT_cons (s : Stmt) (ss : List Stmt) (hf : inFragB ss = true) (hs : StmtRT s) (hb : BlockRT ss) :
     BlockRT (s :: ss) := by
@@ -297,130 +1387,167 @@ theorem blockRT_cons (s : Stmt) (ss : List Stmt) (hf : inFragB ss = true) (hs : 
       simp [renderBlock]
     rw [this, parseBlock_unfold, h1]
     rw [hrb] at h2 ⊢
-    simp [hh2.2.2.2, h2]
+    simp [hh2.2.2.2.2.2, h2]
 
-/-- the optional `else` block as `parseElse` returns it -/
-def elseOpt (o : List Stmt) : Option (List Stmt) := if o.isEmpty then none else some o
+/-! ## the induction -/
 
-theorem elseOpt_getD (o : List Stmt) : (elseOpt o).getD [] = o := by
-  cases o <;> simp [elseOpt]
+theorem goodPs_of_fx : (es : List Expr) → fxList .plain es = true → ∀ x ∈ es, GoodP P0 x
+  | [], _ => by simp
+  | e :: es, h => by
+    simp only [fxList, Bool.and_eq_true] at h
+    intro x hx
+    rcases List.mem_cons.mp hx with rfl | hx'
+    · exact goodP_of_fx h.1
+    · exact goodPs_of_fx es h.2 x hx'
 
-theorem evT_else (o : List Stmt) (ho : BlockRT o) (rest : List Tok) (hr : ElseFree rest) :
-    EvT (fun f => parseElse f (renderElse o ++ rest)) (elseOpt o, rest) := by
-  cases o with
-  | nil =>
-    refine ⟨1, fun f hf => ?_⟩
-    obtain ⟨f1, rfl⟩ : ∃ f1, f = f1 + 1 := ⟨f - 1, by omega⟩
-    simp only [renderElse, List.nil_append, elseOpt, List.isEmpty_nil, if_true]
-    exact parseElse_none f1 rest hr
-  | cons s ss =>
-    obtain ⟨n, hn⟩ := ho (by simp) rest
-    refine ⟨n + 2, fun f hf => ?_⟩
-    obtain ⟨f1, rfl⟩ : ∃ f1, f = f1 + 2 := ⟨f - 2, by omega⟩
-    have h1 := hn f1 (by omega)
-    simp only [renderBlock, List.append_assoc] at h1
-    simp only [renderElse, List.cons_append, List.append_assoc, List.nil_append, elseOpt]
-    rw [parseElse, parseSuite_block, h1]
-    simp
+theorem withItemsOk_of_fx : (items : List WithItem) → fxWithItems items = true → WithItemsOk items
+  | [], _ => by intro it h; cases h
+  | it :: r, h => by
+    simp only [fxWithItems, Bool.and_eq_true] at h
+    intro x hx
+    rcases List.mem_cons.mp hx with rfl | hx'
+    · exact ⟨goodP_of_fx h.1.1, goodOpt_of_fx h.1.2⟩
+    · exact withItemsOk_of_fx r h.2 x hx'
 
-theorem stmtRT_if (t : Expr) (b o : List Stmt) (ht : inFrag t = true) (hbne : b ≠ []) (hb : BlockRT b) (ho : BlockRT o) :
-    StmtRT (.if t b o) := by
-  intro rest hrest
-  obtain ⟨n1, hn1⟩ := evT_namedTest t ht (tNewline :: tIndent :: (renderBlock b ++ (tDedent :: (renderElse o ++ rest))))
-  obtain ⟨n2, hn2⟩ := hb hbne (renderElse o ++ rest)
-  obtain ⟨n3, hn3⟩ := evT_else o ho rest hrest
-  refine ⟨max n1 (max n2 n3) + 3, fun f hf => ?_⟩
-  obtain ⟨f1, rfl⟩ : ∃ f1, f = f1 + 3 := ⟨f - 3, by omega⟩
-  have h1 := hn1 (f1 + 2) (by omega)
-  have h2 := hn2 (f1 + 1) (by omega)
-  have h3 := hn3 (f1 + 2) (by omega)
-  simp only [] at h1 h2 h3
-  have hel : ElseFree (renderElse o ++ rest) ∨ ∃ r, renderElse o ++ rest = .kw .else :: r := by
-    cases o with
-    | nil => exact Or.inl (by simpa [renderElse] using hrest)
-    | cons s ss =>
-      exact Or.inr ⟨.op .colon :: tNewline :: tIndent :: (renderStmt s ++ (renderBlock ss ++ [tDedent])) ++ rest,
-        by simp [renderElse]⟩
-  simp only [renderStmt, List.cons_append, List.append_assoc, parseFirst, startsCompound, if_true]
-  rw [parseCompound, h1]
-  simp only []
-  rw [parseSuite_block, h2]
-  simp only []
-  rw [parseElifs_none _ _ hel]
-  simp only []
-  rw [h3]
-  simp [ifAssemble, elifFold, elseOpt_getD]
+theorem elemOpt_of_fx {v : Option Expr} (h : fxOptE v = true) : ∀ x, v = some x → ElemOK P0 x := by
+  intro x hx; subst hx; exact elemOK_of_fx (by simpa [fxOptE] using h)
 
-theorem parseCompound_while (f : Nat) (r : List Tok) :
-    parseCompound (f + 1) (HK.tok .while :: r) =
-      (match parseNamedTest f r with
-       | some (test, .op .colon :: r1) =>
-         (match parseSuite f r1 with
-          | some (body, r2) =>
-            (match parseElse f r2 with
-             | some (oe, r3) => some (.while test body (oe.getD []), r3)
-             | none => none)
-          | none => none)
-       | _ => none) := by
-  unfold parseCompound
-  split
-  all_goals (try (rename_i hh; simp [HK.tok] at hh; done))
-  all_goals (try (rename_i hh _; simp [HK.tok] at hh; done))
-  rename_i f' t' r' _ _ _ _ _ _ hf' hh
-  simp only [List.cons.injEq] at hh
-  obtain ⟨rfl, rfl⟩ := hh
-  simp only [Nat.succ_eq_add_one, Nat.add_right_cancel_iff] at hf'
-  subst hf'
-  rw [tk_tok]
-  rfl
-
-theorem stmtRT_while (t : Expr) (b o : List Stmt) (ht : inFrag t = true) (hbne : b ≠ []) (hb : BlockRT b)
-    (ho : BlockRT o) : StmtRT (.while t b o) := by
-  intro rest hrest
-  obtain ⟨n1, hn1⟩ := evT_namedTest t ht (tNewline :: tIndent :: (renderBlock b ++ (tDedent :: (renderElse o ++ rest))))
-  obtain ⟨n2, hn2⟩ := hb hbne (renderElse o ++ rest)
-  obtain ⟨n3, hn3⟩ := evT_else o ho rest hrest
-  refine ⟨max n1 (max n2 n3) + 3, fun f hf => ?_⟩
-  obtain ⟨f1, rfl⟩ : ∃ f1, f = f1 + 3 := ⟨f - 3, by omega⟩
-  have h1 := hn1 (f1 + 2) (by omega)
-  have h2 := hn2 (f1 + 1) (by omega)
-  have h3 := hn3 (f1 + 2) (by omega)
-  simp only [] at h1 h2 h3
-  have hc : startsCompound (HK.tok .while :: (renderExpr t ++ (.op .colon :: tNewline :: tIndent ::
-      (renderBlock b ++ (tDedent :: (renderElse o ++ rest)))))) = true := by
-    simp only [startsCompound, HK.tok]; rfl
-  simp only [renderStmt, List.cons_append, List.append_assoc, parseFirst, hc, if_true]
-  rw [parseCompound_while, h1]
-  simp only []
-  rw [parseSuite_block, h2]
-  simp only []
-  rw [h3]
-  simp [elseOpt_getD]
+theorem goodOpt_some {v : Option Expr} (h : fxOpt v = true) : ∀ x, v = some x → GoodP P0 x := by
+  intro x hx; subst hx; exact goodP_of_fx (by simpa [fxOpt] using h)
 
 mutual
 theorem rtStmt : (s : Stmt) → inFragS s = true → StmtRT s
-  | .pass, _ => fun rest _ => evT_pass rest
-  | .break, _ => fun rest _ => evT_break rest
-  | .continue, _ => fun rest _ => evT_continue rest
-  | .return none, _ => fun rest _ => evT_return_none rest
-  | .return (some e), h => fun rest _ => evT_return_some e (by simpa [inFragS] using h) rest
-  | .expr e, h => fun rest _ => evT_expr e (by simpa [inFragS] using h) rest
+  | .pass, _ => stmtRT_of_small rfl small_pass
+  | .break, _ => stmtRT_of_small rfl small_break
+  | .continue, _ => stmtRT_of_small rfl small_continue
+  | .return none, _ => stmtRT_of_small rfl small_return_none
+  | .return (some e), h =>
+    stmtRT_of_small (by simp [renderStmt, renderExpr_eq]) (small_return_some (elemOK_of_fx (by simpa [inFragS] using h)))
+  | .expr e, h => stmtRT_of_small (by simp [renderStmt, renderExpr_eq]) (small_expr (elemOK_of_fx (by simpa [inFragS] using h)))
+  | .delete ts, h => by
+    simp only [inFragS, Bool.and_eq_true, Bool.not_eq_true', List.isEmpty_eq_false_iff] at h
+    exact stmtRT_of_small (by simp [renderStmt]) (small_delete h.1 (elemsOK_of_fx ts h.2))
+  | .assign ts v, h => by
+    simp only [inFragS, Bool.and_eq_true, Bool.not_eq_true', List.isEmpty_eq_false_iff] at h
+    exact stmtRT_of_small (by simp [renderStmt]) (small_assign h.1.1 (elemsOK_of_fx ts h.1.2) (elemOK_of_fx h.2))
+  | .augAssign t o v, h => by
+    simp only [inFragS, Bool.and_eq_true] at h
+    exact stmtRT_of_small (by simp [renderStmt]) (small_augAssign o (elemOK_of_fx h.1) (elemOK_of_fx h.2))
+  | .annAssign t a v s, h => by
+    simp only [inFragS, Bool.and_eq_true, Bool.or_eq_true, Bool.not_eq_true'] at h
+    refine stmtRT_of_small (by simp [renderStmt]) (small_annAssign (goodP_of_fx h.1.1.1) (goodP_of_fx h.1.1.2)
+      (elemOpt_of_fx h.1.2) ?_)
+    intro hs
+    rcases h.2 with h2 | h2
+    · rw [hs] at h2; cases h2
+    · exact h2
+  | .assert t m, h => by
+    simp only [inFragS, Bool.and_eq_true] at h
+    exact stmtRT_of_small (by cases m <;> simp [renderStmt, optToks]) (small_assert (goodP_of_fx h.1) (goodOpt_some h.2))
+  | .raise none none, _ => stmtRT_of_small rfl small_raise_none
+  | .raise none (some _), h => by simp [inFragS] at h
+  | .raise (some e) c, h => by
+    simp only [inFragS, Bool.and_eq_true] at h
+    exact stmtRT_of_small (by cases c <;> simp [renderStmt, optToks]) (small_raise (goodP_of_fx h.1) (goodOpt_some h.2))
+  | .global ns, h => by
+    simp only [inFragS, Bool.not_eq_true', List.isEmpty_eq_false_iff] at h
+    exact stmtRT_of_small (by simp [renderStmt]) (small_global h)
+  | .nonlocal ns, h => by
+    simp only [inFragS, Bool.not_eq_true', List.isEmpty_eq_false_iff] at h
+    exact stmtRT_of_small (by simp [renderStmt]) (small_nonlocal h)
+  | .import names, h => by
+    simp only [inFragS, Bool.not_eq_true', List.isEmpty_eq_false_iff] at h
+    exact stmtRT_of_small (by simp [renderStmt]) (small_import h)
+  | .importFrom m names none, h => by simp [inFragS, fromNamesOk] at h
+  | .importFrom m names (some lvl), h => by
+    simp only [inFragS, fromNamesOk, Bool.and_eq_true, Bool.not_eq_true', List.isEmpty_eq_false_iff, Bool.or_eq_true,
+      decide_eq_true_eq] at h
+    exact stmtRT_of_small (by cases m <;> simp [renderStmt, modToks]) (small_importFrom h.1 h.2)
+  | .typeAlias n tps v, h => by
+    simp only [inFragS, Bool.and_eq_true] at h
+    cases n with
+    | name id => exact stmtRT_of_small (by simp [renderStmt]) (small_typeAlias h.1.2 (goodP_of_fx h.2))
+    | _ => simp [isName] at h
   | .if t b o, h => by
     simp only [inFragS, Bool.and_eq_true, Bool.not_eq_true', List.isEmpty_eq_false_iff] at h
-    exact stmtRT_if t b o h.1.1.1 h.1.1.2 (rtBlock b h.1.2) (rtBlock o h.2)
+    exact stmtRT_if (goodP_of_fx h.1.1.1) h.1.1.2 (rtBlock b h.1.2) (rtBlock o h.2)
   | .while t b o, h => by
     simp only [inFragS, Bool.and_eq_true, Bool.not_eq_true', List.isEmpty_eq_false_iff] at h
-    exact stmtRT_while t b o h.1.1.1 h.1.1.2 (rtBlock b h.1.2) (rtBlock o h.2)
-  | .functionDef .., h | .asyncFunctionDef .., h | .classDef .., h | .delete .., h | .assign .., h
-  | .typeAlias .., h | .augAssign .., h | .annAssign .., h | .for .., h | .asyncFor .., h | .with .., h
-  | .asyncWith .., h | .match .., h | .raise .., h | .try .., h | .tryStar .., h | .assert .., h
-  | .import .., h | .importFrom .., h | .global .., h | .nonlocal .., h => by simp [inFragS] at h
+    exact stmtRT_while (goodP_of_fx h.1.1.1) h.1.1.2 (rtBlock b h.1.2) (rtBlock o h.2)
+  | .for t i b o, h => by
+    simp only [inFragS, Bool.and_eq_true, Bool.not_eq_true', List.isEmpty_eq_false_iff] at h
+    exact stmtRT_for (elemOK_of_fx h.1.1.1.1) (elemOK_of_fx h.1.1.1.2) h.1.1.2 (rtBlock b h.1.2) (rtBlock o h.2)
+  | .asyncFor t i b o, h => by
+    simp only [inFragS, Bool.and_eq_true, Bool.not_eq_true', List.isEmpty_eq_false_iff] at h
+    exact stmtRT_asyncFor (elemOK_of_fx h.1.1.1.1) (elemOK_of_fx h.1.1.1.2) h.1.1.2 (rtBlock b h.1.2) (rtBlock o h.2)
+  | .try b hs o f, h => by
+    simp only [inFragS, Bool.and_eq_true, Bool.not_eq_true', List.isEmpty_eq_false_iff] at h
+    obtain ⟨⟨⟨⟨⟨hbne, hb⟩, hhs⟩, ho⟩, hf⟩, hcond⟩ := h
+    cases hs with
+    | nil =>
+      simp only [List.isEmpty_nil, if_true, Bool.and_eq_true, List.isEmpty_iff, Bool.not_eq_true',
+        List.isEmpty_eq_false_iff] at hcond
+      obtain ⟨rfl, hfne⟩ := hcond
+      exact stmtRT_try_finally hbne (rtBlock b hb) hfne (rtBlock f hf)
+    | cons h0 hs' =>
+      exact stmtRT_try_handlers hbne (rtBlock b hb) (by simp) (rtHandlers (h0 :: hs') false hhs) (rtBlock o ho)
+        (rtBlock f hf)
+  | .tryStar b hs o f, h => by
+    simp only [inFragS, Bool.and_eq_true, Bool.not_eq_true', List.isEmpty_eq_false_iff] at h
+    obtain ⟨⟨⟨⟨⟨hbne, hb⟩, hne⟩, hhs⟩, ho⟩, hf⟩ := h
+    exact stmtRT_tryStar hbne (rtBlock b hb) hne (rtHandlers hs true hhs) (rtBlock o ho) (rtBlock f hf)
+  | .with items b, h => by
+    simp only [inFragS, Bool.and_eq_true, Bool.not_eq_true', List.isEmpty_eq_false_iff] at h
+    exact stmtRT_with h.1.1.1 (withItemsOk_of_fx items h.1.1.2) h.1.2 (rtBlock b h.2)
+  | .asyncWith items b, h => by
+    simp only [inFragS, Bool.and_eq_true, Bool.not_eq_true', List.isEmpty_eq_false_iff] at h
+    exact stmtRT_asyncWith h.1.1.1 (withItemsOk_of_fx items h.1.1.2) h.1.2 (rtBlock b h.2)
+  | .functionDef n a b d r tp, h => by
+    simp only [inFragS, Bool.and_eq_true, Bool.not_eq_true', List.isEmpty_eq_false_iff] at h
+    obtain ⟨⟨⟨⟨⟨ha, hbne⟩, hb⟩, hd⟩, hr⟩, htp⟩ := h
+    exact stmtRT_def false ha (goodPs_of_fx d hd) (goodOpt_of_fx hr) htp hbne (rtBlock b hb) _ rfl rfl
+  | .asyncFunctionDef n a b d r tp, h => by
+    simp only [inFragS, Bool.and_eq_true, Bool.not_eq_true', List.isEmpty_eq_false_iff] at h
+    obtain ⟨⟨⟨⟨⟨ha, hbne⟩, hb⟩, hd⟩, hr⟩, htp⟩ := h
+    exact stmtRT_def true ha (goodPs_of_fx d hd) (goodOpt_of_fx hr) htp hbne (rtBlock b hb) _ rfl rfl
+  | .classDef n bases kws b d tp, h => by
+    simp only [inFragS, Bool.and_eq_true, Bool.not_eq_true', List.isEmpty_eq_false_iff] at h
+    obtain ⟨⟨⟨⟨⟨⟨hbs, hk⟩, hfr⟩, hbne⟩, hb⟩, hd⟩, htp⟩ := h
+    exact stmtRT_class (elemsOK_of_fx bases hbs) (goodKws_of_fx kws hk) hfr (goodPs_of_fx d hd) htp hbne (rtBlock b hb)
+  | .match subj cases, h => by
+    simp only [inFragS, Bool.and_eq_true, Bool.not_eq_true', List.isEmpty_eq_false_iff] at h
+    exact stmtRT_match (elemOK_of_fx h.1.1) h.1.2 (rtCases cases h.2)
 theorem rtBlock : (ss : List Stmt) → inFragB ss = true → BlockRT ss
   | [], _ => fun hne => absurd rfl hne
   | s :: ss, h => by
     simp only [inFragB, Bool.and_eq_true] at h
     exact blockRT_cons s ss h.2 (rtStmt s h.1) (rtBlock ss h.2)
+theorem rtHandlers : (hs : List ExceptHandler) → (star : Bool) → inFragHs hs star = true → HandlersOk hs star
+  | [], _, _ => by intro ty nm b hm; cases hm
+  | .mk ty nm b :: hs, star, h => by
+    simp only [inFragHs, Bool.and_eq_true, Bool.not_eq_true', List.isEmpty_eq_false_iff, Bool.or_eq_true] at h
+    obtain ⟨⟨⟨⟨hty, hcond⟩, hbne⟩, hb⟩, hrest⟩ := h
+    intro ty' nm' b' hm
+    rcases List.mem_cons.mp hm with heq | hm'
+    · cases heq
+      refine ⟨⟨goodOpt_of_fx hty, ?_⟩, hbne, rtBlock b hb⟩
+      rcases hcond with hc | hc
+      · exact Or.inl hc
+      · exact Or.inr ⟨by simpa using hc.1, hc.2⟩
+    · exact rtHandlers hs star hrest ty' nm' b' hm'
+theorem rtCases : (cs : List MatchCase) → inFragCs cs = true → CasesOk cs
+  | [], _ => by intro p g b hm; cases hm
+  | .mk p g b :: cs, h => by
+    simp only [inFragCs, Bool.and_eq_true, Bool.not_eq_true', List.isEmpty_eq_false_iff] at h
+    obtain ⟨⟨⟨⟨hp, hg⟩, hbne⟩, hb⟩, hrest⟩ := h
+    intro p' g' b' hm
+    rcases List.mem_cons.mp hm with heq | hm'
+    · cases heq
+      exact ⟨hp, goodOpt_of_fx hg, hbne, rtBlock b hb⟩
+    · exact rtCases cs hrest p' g' b' hm'
 end
+
+/-! ## programs -/
 
 theorem parseProgramBody_unfold (f : Nat) (t : Tok) (r : List Tok) (ht : tk t ≠ .newline) :
     parseProgramBody (f + 1) (t :: r) =
@@ -466,7 +1593,7 @@ theorem progRT : (ss : List Stmt) → inFragB ss = true → EvT (fun f => parseP
     simp only [] at h1 h2 ⊢
     simp only [renderBlock] at h1 ⊢
     rw [hr, List.cons_append] at h1 ⊢
-    rw [parseProgramBody_unfold _ _ _ hh.2.2.1, h1]
+    rw [parseProgramBody_unfold _ _ _ hh.2.2.2.2.1, h1]
     simp [h2]
 
 theorem map_toTok_ofTok (ts : List Tok) : (ts.map PTok.ofTok).map PTok.toTok = ts := by
